@@ -12,1081 +12,2666 @@ Definition show_fres (r : fres) : string :=
   end.
 Definition check (rs : list rune) : string := digest (show_fres (format_res rs)).
 Definition full (rs : list rune) : string := show_fres (format_res rs).
-Eval vm_compute in ("<<<M1447>>>" ++ check (runes_of_ascii "// top
-options // c0a
-  // c0b
-{ LittleEndian // c2a
-  // c2b
-= // c3a
-  // c3b
-false // c4
-; // c5a
-  // c5b
-StringPrefixLenType = u16 // c8
-; // c9
-ArrayPrefixLenType // c10a
-  // c10b
-=
-    // c11
-u64 ;
-    // c13
-FixedStringPadFromLeft // c14a
-  // c14b
-= true // c16
-; // c17a
-  // c17b
-FixedStringPadChar // c18a
-  // c18b
-= // c19
-' ' ; // c21
-} // c22a
-  // c22b
-packet Logon // c24a
-  // c24b
-{
-    // c25
-u16 // c26
-Tail ,
-    // c28
-repeat // c29
-string x
-    // c31
-, // c32
-i16 // c33a
-  // c33b
-count // c34a
-  // c34b
-, @leftPad
-    // c36
-( // c37
-'0'
-    // c38
-) // c39a
-  // c39b
-char[ // c40a
-  // c40b
-3 ] // c42
-Note // c43a
-  // c43b
-, } packet // c46a
-  // c46b
-Fill // c47
-{ // c48a
-  // c48b
-}
-    // c49
-packet // c50
-Heartbeat
-    // c51
-{ // c52a
-  // c52b
-}
-    // c53
-packet // c54
-Reject // c55a
-  // c55b
-{ string // c57a
-  // c57b
-msgKind
-    // c58
-, // c59a
-  // c59b
-repeat // c60
-Logon // c61a
-  // c61b
-, // c62a
-  // c62b
-InFlags25 // c63
-{
-    // c64
-repeat
-    // c65
-InPrice29 {
-    // c67
-u8
-    // c68
-price // c69
-, // c70
-Logon , // c72a
-  // c72b
-repeat // c73a
-  // c73b
-char[ // c74a
-  // c74b
-1
-    // c75
-] // c76
-Note // c77
-, // c78a
-  // c78b
-} // c79a
-  // c79b
-,
-    // c80
-char[] x ,
-    // c83
-Fill
-    // c84
-,
-    // c85
-} ,
-    // c87
-repeat // c88a
-  // c88b
-Heartbeat // c89a
-  // c89b
-,
-    // c90
-} // c91
-root packet Order // c94
-{ InNote88 // c96a
-  // c96b
-{ // c97
-repeat
-    // c98
-i32 Acct , // c101
-repeat i16 clOrdID // c104
-, // c105a
-  // c105b
-repeat // c106
-Logon , // c108
-}
-    // c109
-, // c110a
-  // c110b
-u16 // c111
-tag7 // c112
-, // c113a
-  // c113b
-match
-    // c114
-tag7
-    // c115
-as // c116
-Body { // c118a
-  // c118b
-[
-    // c119
-14
-    // c120
-,
-    // c121
-22 // c122a
-  // c122b
-] : Logon // c125a
-  // c125b
-, // c126
-55 // c127a
-  // c127b
-: // c128a
-  // c128b
-Heartbeat // c129
-, // c130
-93 // c131a
-  // c131b
-:
-    // c132
-Reject , // c134
-13 // c135a
-  // c135b
-: // c136
-Fill // c137
-, } // c139
-, }
-    // c141
-")).
-Eval vm_compute in ("<<<M239>>>" ++ check (runes_of_ascii "packet x_y_z {
-packetx { i16 pack `doc` ,
-    repeat char[
-    255
-]leftPad
-    ,
-} , u8x , match o as roots {
-[ // a // b
-0123456789 ]
-    // packet A { u8 x, }
-    : x_y_z [""a\\""
-    ] : packetx
-    , }
-,  repeat charz{	int32 i64_ `{ , }`,
-}  ,  }
-    packet x_y_z { @calculatedFrom(
-""CRC32""
-    )
-@tag( 00 ) @lengthOf(x ) match As as
-stringy
-    { 1	: i64_
-    ,// " ++ [27880; 37322]%N ++ runes_of_ascii "
-[""it's""
-,
-""1"" ,
-""x y"" //
-, 4294967296
-    ,
-""\n"" , ""x y"" ] :
-u128 ,00 : calculatedFrom
-,	[ // " ++ [128512]%N ++ runes_of_ascii " emoji
-4294967296
-    , ""// no comment""
-    , 42
-    ,
-3,""{,}""
-    // packet A { u8 x, }
-    ]  :	charz} ,
-@calculatedFrom( ""a\\""
-)  Logon A ,chars  @lengthOf(Logon
-), @rightPad
-('0' )@tag(	0 ) @rightPad  ( '0' ) string Foo // trailing space 
-`a\`
-    ,
-}  packet packetx
-{repeat i64_
-    {  o @lengthOf(A) ,
-    },@tag(
-    42
-    ) repeat char[]
-    crc ,
-    @leftPad ( ) u16 roots , falsey @lengthOf( As) , repeat  Foo{ float32 f32a@calculatedFrom( ""`tick`"" )
-, len
-`
-`
-// a // b
-/// triple
-,
-    // packet A { u8 x, }
-    }, @leftPad
-('\x00' )	T@calculatedFrom( ""a	b"" ) `" ++ [28040; 24687; 31867; 22411]%N ++ runes_of_ascii "`,  char[]
-// c
-// " ++ [128512]%N ++ runes_of_ascii " emoji
-trueish `u8 x,` , @lengthOf(falsey
-    )
-    match
-    // " ++ [27880; 37322]%N ++ runes_of_ascii "
-    rootA
-    as BodyLength { // " ++ [128512]%N ++ runes_of_ascii " emoji
-[
-""CRC32"" ]: x ,
-// @lengthOf(
-// c
-42
-:
-// packet A { u8 x, }
-// `tick` ""quote"" 'q'
-BodyLength , // trailing space 
-} ,
-    }")).
-Eval vm_compute in ("<<<M1955>>>" ++ check (runes_of_ascii "root packet a1 {
-    // " ++ [27880; 37322]%N ++ runes_of_ascii "
-    repeat leftPad {
-        // a // b
-        lengthOf,
-    },
-    @tag(0123456789)
-    int64 repeatCount ``,
-    match int as len {
-        1 : repeatCount,
-        """" : lengthOf,
-        [
-            ""a\""b"", 255, 7, ""it's"", 255,
-            00, 7, ""`tick`""
-        ] : msg_type,
-        42 : body,
-    },
-    repeat asx {
-        charz {
-            char[007] f32a,
-            // a // b
-        },
-        match u as Z9_ {
-            """ ++ [233]%N ++ runes_of_ascii "t" ++ [233]%N ++ runes_of_ascii """ : float,
-            // c
-            ""1"" : Pad,
-            ["""", 10] : Header,
-            [42] : repeatCount,
-            00 : T,
-        },
-    },
-    @rightPad(' ')
-    falsey,
-    @tag(0)
-    @calculatedFrom(""1"")
-    @leftPad('\x00')
-    o,
-}
+Eval vm_compute in ("<<<M3587>>>" ++ check (runes_of_ascii "
 
-MetaData i64_ {
-}
+  options
+{ LittleEndian =true
+    ; StringPrefixLenType	=u8
 
-packet x {
-    @lengthOf(Header)
-    repeat msg_type {
-        repeat char[0123456789] u,
-        // packet A { u8 x, }
-        uint32 BodyLength @lengthOf(_x) `crlf
-                line`,
-    },
-}
-
-MetaData Header {
-    Header options1,
-    f32a stringy,
-    char[] uint8x `a\`,
-    char[1] u128,
-    i32 Z9_,
-    float32 msg_type,
-}")).
-Eval vm_compute in ("<<<M168>>>" ++ check (runes_of_ascii "packet // trailing space 
-crc {	match	trueish
-    as pack {[// trailing space 
-007
-    , ""`tick`""
-    , 42 ,3 ,
-""x y"" ] :
-    // " ++ [128512]%N ++ runes_of_ascii " emoji
-    u128
-, } , // packet A { u8 x, }
-@tag( 255
-)
-    lengthOf
-    // " ++ [128512]%N ++ runes_of_ascii " emoji
-    lengthOf , repeat zchar[ 0123456789]
-    calculatedFrom`" ++ [233]%N ++ runes_of_ascii "` , // trailing space 
-@calculatedFrom(
-""" ++ [28040; 24687]%N ++ runes_of_ascii """ ) repeat/// triple
-f32a ,repeat char[]
-// packet A { u8 x, }
-/// triple
-msg_type
-`u8 x,` ,
-    x @calculatedFrom( ""{,}"" ) , f32 uint8x// packet A { u8 x, }
-`two words`,
-    char[  0 ]
-i8i8 , @calculatedFrom(
-""1"" ) rootA BodyLength,
-repeat string a1 //	t
-, } root// " ++ [128512]%N ++ runes_of_ascii " emoji
-packet
-// c
-// " ++ [27880; 37322]%N ++ runes_of_ascii "
-metadata
-{ @calculatedFrom( ""abc"" ) options1 // trailing space 
-Header ,
-// @lengthOf(
-// " ++ [27880; 37322]%N ++ runes_of_ascii "
-}root
-packet charz{
-repeat stringy ,@tag( 3 // trailing space 
-)
-    Foo x_y_z`{ , }` ,
-    char[
-    1]
-Logon
-@lengthOf( float)
-,	int8
-    int
-    ,
-    } //	t
-packet Packet { char[] zchar
-//x
-// " ++ [128512]%N ++ runes_of_ascii " emoji
-`
-`
-    // c
-    , }
-")).
-Eval vm_compute in ("<<<M1553>>>" ++ check (runes_of_ascii "packet options1 {
-    repeat matchKey `doc`,
-    char[] string_ `
-        `,// packet A { u8 x, }
-    uint16 T,
-    repeatCount _x,
-}
-
-packet msg_type {
-    @lengthOf(Pad)
-    asx @calculatedFrom(""\" ++ [233]%N ++ runes_of_ascii """),
-    @tag(4294967296)
-    Logon `a\`,
-    @tag(0)
-    crc @lengthOf(charz) `u8 x,`,
-    char[0] f32a,
-    u8 A `line1
-        line2`,
-    Z9_ u `{ , }`,
-    repeat uint8x `" ++ [28040; 24687; 31867; 22411]%N ++ runes_of_ascii "`,
-    int8 Packet @calculatedFrom(""{,}""),
-    // packet A { u8 x, }
-}
-
-packet A {
-    // trailing space 
-    // trailing space 
-    @tag(3)
-    @tag(1)
-    u16 A,
-    @tag(1)
-    match roots as pack {
-        // c
-        [""CRC32""] : i8i8,
-        ""a\\"" : trueish,
-        [""{,}"", """ ++ [28040; 24687]%N ++ runes_of_ascii """] : falsey,
-        // `tick` ""quote"" 'q'
-    },
-    @rightPad(' ')
-    int16 Packet `
-        `,// `tick` ""quote"" 'q'
-    repeat zchar[1] Pad,// a // b
-}")).
-Eval vm_compute in ("<<<M1122>>>" ++ check (runes_of_ascii "// top
-root // c0
-packet // c1
-msg_type // c2
-{ // c3
-i64 // c4
-options1 // c5
-, // c6
-@lengthOf( // c7
-f32a // c8
-) // c9
-repeat // c10
-uint16 // c11
-Foo // c12
-, // c13
-@calculatedFrom( // c14
-""x y"" // c15
-) // c16
-repeat // c17
-int64 // c18
-pack // c19
-, // c20
-@leftPad // c21
-( // c22
-' ' // c23
-) // c24
-uint8 // c25
-Foo // c26
-, // c27
-} // c28
-packet // c29
-rootA // c30
-{ // c31
-f32a // c32
-x // c33
-`two words` // c34
-, // c35
-char // c36
-asx // c37
-@lengthOf( // c38
-falsey // c39
-) // c40
-`u8 x,` // c41
-, // c42
-@lengthOf( // c43
-i64_ // c44
-) // c45
-uint16 // c46
-chars // c47
-, // c48
-@tag( // c49
-0 // c50
-) // c51
-string // c52
-_x // c53
-@calculatedFrom( // c54
-""abc"" // c55
-) // c56
-`// not a comment` // c57
-, // c58
-} // c59
-")).
-Eval vm_compute in ("<<<M1410>>>" ++ check (runes_of_ascii "// top
-packet // c0
-P1 {
-    // c2
-u8 // c3
-a // c4
-, // c5
-}
-    // c6
-packet P2 // c8
-{ // c9
-P1
-    // c10
-, // c11
-} packet // c13
-P3
-    // c14
-{ P2 // c16a
-  // c16b
-, P1
-    // c18
-, }
-    // c20
-packet // c21a
-  // c21b
-P4
-    // c22
-{ repeat P3
-    // c25
-,
-    // c26
-P2 // c27
-, // c28
-}
-    // c29
-root packet P5
-    // c32
-{ // c33
-P4 // c34a
-  // c34b
-, // c35a
-  // c35b
-P3 // c36
-, // c37
-P1 // c38
-, u8
-    // c40
-K , // c42
-match K // c44
-as
-    // c45
-Body // c46a
-  // c46b
-{ // c47
-4 : // c49
-P4 // c50
-, 3
-    // c52
-:
-    // c53
-P3 , 2
-    // c56
-: // c57a
-  // c57b
-P2
-    // c58
-, // c59
-1
-    // c60
-: // c61
-P1 , } // c64
-, // c65
-}
-    // c66
-")).
-Eval vm_compute in ("<<<M1768>>>" ++ check (runes_of_ascii "  packet
-	BodyLength
-	{  repeat  string
-As
-	`{ , }`
-    , @tag(4294967296  )
-
-    match
-Pad
-as
-lengthOf{//	t
-	  007 :  // `tick` ""quote"" 'q'
-	  i8i8 	 /// triple
-
-,""a\""b""
-
-    : //x
-	msg_type
-,	}  ,
-repeat
-uint32
-Z9_ ,
-@tag(
-00	)// `tick` ""quote"" 'q'
-    	charz
-
-    , string
-	    // trailing space 
-i8i8// packet A { u8 x, }
-    @lengthOf(
-BodyLength ),	@calculatedFrom( ""{,}"") 
-// a // b
-  @leftPad	// " ++ [27880; 37322]%N ++ runes_of_ascii "
-      (
-    ) 
-leftPad
-
-metadata, 
-      //
-
-  // " ++ [128512]%N ++ runes_of_ascii " emoji
-	string  i8i8
-``	,uint64  trueish
-	@calculatedFrom( ""1""
-	/// triple
-  	// " ++ [27880; 37322]%N ++ runes_of_ascii "
-    )  `
-` ,  }")).
-Eval vm_compute in ("<<<M1383>>>" ++ check (runes_of_ascii "packet A // c1
-{ // c2
-u8 // c3
-a
-    // c4
-,
-    // c5
-}
-    // c6
-packet
-    // c7
-B { // c9
-u16 // c10
-b , // c12
-}
-    // c13
-root
-    // c14
-packet // c15
-P { u8 // c18
-K1 // c19a
-  // c19b
-, // c20a
-  // c20b
-u8 K2 , // c23a
-  // c23b
-match K1
-    // c25
-as
-    // c26
-M1 // c27
-{ 1 // c29
-: // c30
-A // c31
-, // c32a
-  // c32b
-} // c33
-, // c34
-match // c35
-K2 // c36a
-  // c36b
-as
-    // c37
-M2 // c38
-{ // c39
-1 : // c41a
-  // c41b
-B // c42a
-  // c42b
-, // c43
-} // c44a
-  // c44b
-, } ")).
-Eval vm_compute in ("<<<M163>>>" ++ check (runes_of_ascii "
-packet
-    float {
-    char[ 00 ] u8x ,	}
-packet // " ++ [128512]%N ++ runes_of_ascii " emoji
-A // @lengthOf(
-{ string
-i8i8 , A //x
-@calculatedFrom(
-""a	b"" ) `a\`, @tag( 1 )
-    chars	@lengthOf( Pad ) `u8 x,`
-    , /// triple
-match repeatCount as stringy { 42 :
-x
-3: // @lengthOf(
-tag, [ 00 , 0123456789
-] : packetx , [ """ ++ [28040; 24687]%N ++ runes_of_ascii """	, ""packet""
-]: string_ , }	,
-}options // @lengthOf(
-{ i8i8= """ ++ [233]%N ++ runes_of_ascii "t" ++ [233]%N ++ runes_of_ascii """ Foo
-    = false
-    // packet A { u8 x, }
-    ;  Pad =
-' '
-    ;}")).
-Eval vm_compute in ("<<<M1816>>>" ++ check (runes_of_ascii "MetaData
-	len /// triple
-	  {  //
-      f64
-    T  `u8 x,`
-
-    ,rootA
-
-stringy
-,  zchar
-
-repeatCount`say ""hi""`
-
-    ,MetaDataX	As
-,  i8i8
-string_
-    , x_y_z f32a, 
-}
-	options 	 // c
-	{  Logon 
-      //
-  =
-    string	float	=
-string  A  =""abc"" 	 /// triple
-
-;  
-      //
-	A  =
-
-    ""\" ++ [233]%N ++ runes_of_ascii """ Logon  = 7
-
-}
-options
-    { }
-
-options	{
-packetx
-
-=
-	""abc"" 	 // c
-	;
-x
-
-=true	}
-
-")).
-Eval vm_compute in ("<<<M87>>>" ++ check (runes_of_ascii "options {
-    x_y_z	= false
-;
-    stringy =
-    """ ++ [233]%N ++ runes_of_ascii "t" ++ [233]%N ++ runes_of_ascii """;
-    // trailing space 
-    crc =
-""" ++ [128512]%N ++ runes_of_ascii """  i8i8=
-'0'
+; 
+ArrayPrefixLenType  =
+	u16 ;FixedStringPadChar
+=	'0'
     ;
-}
-    // `tick` ""quote"" 'q'
-    packet _x { match u128 as tag { ""CRC32"" :stringy , 3
-    //	t
-    : repeatCount ,// " ++ [27880; 37322]%N ++ runes_of_ascii "
-""\" ++ [233]%N ++ runes_of_ascii """ :	float,	[
-"""" ,  """"	, """ ++ [28040; 24687]%N ++ runes_of_ascii """ , ""a\""b"" ]
-    : u8x ,""1""
-:
-    x_y_z
-, } , }packet stringy {
-}
-// " ++ [128512]%N ++ runes_of_ascii " emoji
-")).
-Eval vm_compute in ("<<<M1476>>>" ++ check (runes_of_ascii "
-options{ LittleEndian 
-=
-    true ;	} packet
+JavaPackage=
+	""com.example.msg""
 
-    Logon
-{ u8 x
+    ; 
+GoPackage= 
+""msg""
+; GoModule
+
+=""example.com/msg""
+	; 
+}
+
+MetaData
+	Meta{ u32 
+SeqNum
+	`sequence number`
+	,char[
+
+    8]
+	Symbol	`symbol`
+    , zchar[ 
+5
+
+    ]
+ZSym `z symbol`	,	string
+Note ,  Symbol
+
+    AltSymbol 
+`alias of symbol` ,
+f64
+
+    Price
 
 ,
-	}
-    packet 
-Logout  {u16
-    reason
-	,}root
-	packet Frame { i32 Kind
+
+}
+    packet Inner	{ u8 a
+	, i16	b,	string  c
+,	}  packet
+Inner2 
+{
+    u8
+a2 , 
+char[
+    3
+]  c2,
+	}packet
+
+Logon	{	u8 x
+	,string user 
+, repeat
+	u16 codes  ,}packet
+Logout 
+{ u16
+
+    reason , 
+}packet Empty
+	{
+}	root
+	packet Msg
+
+{
+
+    u8
+
+su8
+, 
+uint8
+    luint8
+	,  u16 
+su16
+
+, uint16
+    luint16 
+,
+    u32	su32
+,	uint32
+
+luint32 , 
+u64
+su64 , uint64 
+luint64
+,
+	i8	si8
+
+, int8
+
+lint8,
+i16 si16 ,  int16
+
+lint16 
+,
+i32
+
+    si32, int32
+lint32, i64 si64
+	, int64
+    lint64
+
+    ,
+f32
+    sf32
+	,  float32  lfloat32 
+,	f64
+
+    sf64
+,	float64
+    lfloat64,
+	char[ 6
+]fsplain ,
+
+@leftPad	('0'
+	)
+char[4
+	]
+    fs0  ,
+    @rightPad 
+(	'0'
+	)
+	char[
+
+5
+
+] 
+fs1 ,
+
+    @leftPad  (
+
+    ' '
+) 
+char[
+6] fs2,  @rightPad 
+(  ' '
+    )
+
+    char[
+7]fs3, @leftPad
+
+( '\x00'
+
+) char[8 ]
+
+    fs4  ,@rightPad('\x00'
+    ) char[ 
+9
+    ] 
+fs5 ,@leftPad
+
+    (  ) 
+char[10
+    ]
+	fs6
 
 ,
-i32 Kind2, match
-Kind	as 
-Body
-    {	1 :Logon 
-,[2,3
-,4 ]
+@rightPad ( ) char[ 11
+]fs7
+    ,zchar[
+    7
+
+    ]fz
+
+,@leftPad ( '0'
+
+)
+
+zchar[3]fzl0,string 
+s1  `doc` 
+,
+char[]
+
+    s2,
+    Inner
+,
+Sub
+{  u8 q
+,string w
+	,
+Deep { u16
+	z
+    ,repeat
+	i32 
+zs ,
+
+} 
+, }
+
+    ,
+repeat
+u8 ru8 
+,	repeat
+u16
+	ru16
+,repeat  u32	ru32
+    ,
+	repeat
+    u64
+	ru64
+
+, repeat
+
+    i8
+    ri8
+    , 
+repeat i16 
+ri16 ,	repeat
+	i32  ri32	,repeat
+	i64	ri64
+    ,
+repeat 
+f32
+
+    rf32
+,
+
+repeat	f64
+rf64 , repeat
+
+string
+
+rstr
+    ,repeat
+    char[]
+
+rstr2
+
+    ,
+repeat
+
+    char[ 3  ] rfs
+
+, repeat
+	zchar[
+    3 ]
+rfz , 
+repeat Inner2
+
+    ,
+
+    repeat
+	Grp  {
+
+u8
+
+k, char[  2	]
+v,
+	}  ,SeqNum  , SeqNum seq2 ,
+    repeat SeqNum
+    seqs ,	Symbol
+    ,
+	AltSymbol alt
+	,	ZSym
+
+    ,Note
+
+, repeat	Symbol	syms,
+	Price
+px
+,
+u16
+MsgType ,
+
+    u32 BodyLen
+@lengthOf(	Body
+    )  ,match MsgType as  Body 
+{ 
+1 : Logon , [	2 ,  3 ]
 
     :
-    Logout
 
-, 100
-	:	Logon
-	,	} , match	Kind2
+Logout ,  7 
+:	Logon
 
-    as
-	Trailer{ 0
-: Logout ,
+    ,9:Empty,
 
-}
+} ,u32
+Checksum@calculatedFrom(""CRC32""
 
-,
-	}")).
-Eval vm_compute in ("<<<M1675>>>" ++ check (runes_of_ascii "// top
-packet A {
-    // c2
-    u8 a,// c5
-}// c6a
-
-// c6b
-packet B {
-    // c9
-    u16 b,// c12a
-    // c12b
-}
-
-root packet P {
-    // c17
-    u8 K,// c20
-    match K as M {
-        // c25
-        1 : A,
-        1 : B,
-        // c33a
-        // c33b
-    },// c35
-}")).
-Eval vm_compute in ("<<<M1127>>>" ++ check (runes_of_ascii "packet Logon // c1a
-  // c1b
-{ // c2a
-  // c2b
-@tag( 42 // c4
-) // c5
-@rightPad (
-    // c7
-' ' ) @leftPad
-    // c10
-( )
-    // c12
-repeat // c13
-trueish
-    // c14
-{
-    // c15
-string
-    // c16
-T
-    // c17
-, }
-    // c19
-,
-    // c20
-} ")).
-Eval vm_compute in ("<<<M1471>>>" ++ check (runes_of_ascii "packet Sub {
-    u8 a,
-    @calculatedFrom(""CRC16"") i16 SubSum,
-}
-root packet Frame {
-    u16 MsgType,
-    u16 BodyLen @lengthOf(Body),
-    Sub Body,
-    string note,
-    @calculatedFrom(""CRC16"") i16 Checksum,
-    u8 tail,
-}
+)
+    ,
+	}
 ")).
-Eval vm_compute in ("<<<M1559>>>" ++ check (runes_of_ascii "// " ++ [27880; 37322]%N ++ runes_of_ascii "
-options {
-    msg_type = '0'
+Eval vm_compute in ("<<<M4301>>>" ++ check (runes_of_ascii "options {
 }
 
-packet _x {
-    // `tick` ""quote"" 'q'
+root packet msg_type {
+    match u8x as zchar {
+        [0, 00] : metadata,
+        10 : Z9_,
+        ""a\""b"" : chars,
+        0 : uint8x,
+        // " ++ [27880; 37322]%N ++ runes_of_ascii "
+        007 : chars,
+    },
+    A @lengthOf(Pad),
+    @leftPad(' ')
+    @leftPad(' ')
     @tag(00)
-    @tag(1)
-    char[] a1,
+    int8 Pad @calculatedFrom(""x y""),
+}
+
+root packet msg_type {
+    i64 uint8x,
+    @leftPad('\x00')
+    Z9_ @calculatedFrom(""""),
+    Pad `two words`,
+}
+
+packet f32a {
+    zchar[4294967296] u,
+    @leftPad('0')
+    repeat uint64 zchar `crlf
+    line`,
+    // 50% %s
+    int16 msg_type `100% of %d`,
+    @lengthOf(crc)
+    calculatedFrom {
+        // packet A { u8 x, }
+        // " ++ [27880; 37322]%N ++ runes_of_ascii "
+        Header {
+            matchKey @lengthOf(falsey),
+            match int as BodyLength {
+                // 50% %s
+                7 : packetx,
+                """ ++ [28040; 24687]%N ++ runes_of_ascii """ : msg_type,
+            },
+            x @calculatedFrom(""a\""b""),
+            match body as len {
+                ""`tick`"" : body,
+                """ ++ [128512]%N ++ runes_of_ascii """ : roots,
+                // trailing space 
+                //
+                4294967296 : packetx,
+                /// triple
+                // @lengthOf(
+                ""a\""b"" : matchKey,
+            },
+        },
+    },
+    repeat i8i8 body,
+    repeat As crc,
+    match uint8x as tag {
+        [""a\\"", 7, ""x y""] : float,
+        ""a	b"" : A,
+        ""CRC32"" : rootA,
+        [
+            ""a\""b"", ""CRC32"", 3, ""it's"", 42,
+            65535, """"
+        ] : options1,
+        [1] : Packet,
+    },
+    match string_ as u8x {
+        0123456789 : zchar,
+        //x
+    },
+    zchar @calculatedFrom("""") `line1
+    line2`,
+    repeat T {
+        metadata @calculatedFrom(""x y""),
+        match a1 as metadata {
+            4294967296 : options1,
+            ""x y"" : i8i8,
+        },
+        repeat leftPad {
+            char[42] float,// a // b
+        },
+    },
+}
+
+options {
+    i64_ = true
+}")).
+Eval vm_compute in ("<<<M3991>>>" ++ check (runes_of_ascii "  packet 	 // `tick` ""quote"" 'q'
+
+  x
+{zchar[ 10
+]
+
+    leftPad
+,
+    @leftPad	(
+)
+
+char[
+
+10
+
+    ]
+
+    repeatCount `crlf
+line`  , @rightPad
+    // trailing space 
+  // 50% %s
+	( ' '
+
+)
+@lengthOf(
+Header)
+@tag( 007 //	t
+      )  A
+
+@lengthOf(
+rootA  )`doc`
+
+, @tag(
+
+    7
+
+    )
+@rightPad( 
+
+//x
+		// `tick` ""quote"" 'q'
+
+' '
+	)
+@leftPad 
+( 
+)
+
+    match repeatCount
+    as
+BodyLength
+
+    {
+
+3 :tag
+
+, 65535
+:
+o 
+,
+
+[ ""it's""
+
+    ,
+    3 ]
+: 
+i64_ ,
+
+    00:
+
+    u128 ,""""	: 
+Logon
+	,
+
+}
+	,
+string  // packet A { u8 x, }
+      pack 
+
+    // trailing space 
+
+,calculatedFrom	asx
+
+// " ++ [128512]%N ++ runes_of_ascii " emoji
+  	// `tick` ""quote"" 'q'
+  ,}  root
+
+packet
+	x_y_z 
+{  packetx, 
+} packet 
+  // " ++ [128512]%N ++ runes_of_ascii " emoji
+lengthOf
+    {
+
+i32 x	`100% of %d` 
+,match u 
+      //
     // packet A { u8 x, }
-    /// triple
+as
+    packetx  {[
+	//x
+
+	//x
+      ""\" ++ [233]%N ++ runes_of_ascii """,  
+  // " ++ [27880; 37322]%N ++ runes_of_ascii "
+    255,
+    // a // b
+    // c
+    	65535  , 0123456789//	t
+      ] : Z9_  ,} 
+,
+    repeat  char[	007] // c
+      packetx	,match
+    metadata
+	as  repeatCount {[1
+
+    ,10 
+]
+	:
+    // c
+/// triple
+  x_y_z ,
+
+    7 :  T,} ,
+	float trueish
+
+,  T
+@lengthOf(
+A )
+    ,
+    match  charz  as 
+	    // " ++ [27880; 37322]%N ++ runes_of_ascii "
+
+//x
+    uint8x
+
+{
+	""" ++ [128512]%N ++ runes_of_ascii """ 
+:
+
+BodyLength 
+}
+	,
+repeat
+
+trueish
+{	i64_ 
+	    /// triple
+
+  {string f32a
+	@calculatedFrom( ""`tick`"" )`// not a comment` ,
+
+} 
+,
+} , }
+    root  packet
+	float
+	{ @calculatedFrom(""x y""	)  match  // " ++ [27880; 37322]%N ++ runes_of_ascii "
+Packet as
+
+Foo
+
+    { [
+""it's""
+	] :
+
+    u  ,	65535 
+	// " ++ [27880; 37322]%N ++ runes_of_ascii "
+
+:u128
+    ,
+    007:  u  ,
+[
+	00]	//	t
+
+:
+
+calculatedFrom
+	, 	 /// triple
+	  [
+
+    42
+]
+    :
+tag
+},
+
+    }
+
+")).
+Eval vm_compute in ("<<<M3868>>>" ++ check (runes_of_ascii "root packet rootA {
+    len chars `line1
+        line2`,
+    @tag(3)
+    @calculatedFrom(""1"")
+    u128 {
+        string matchKey,
+    },
+    Packet {
+        zchar[7] falsey,
+    },
+    repeat uint32 uint8x,
+    repeat msg_type {
+        zchar[0123456789] msg_type @lengthOf(roots) `a\`,
+        char[0] As,
+    },
+    f64 body,
+    @leftPad(' ')
+    @lengthOf(o)
+    match x as As {
+        10 : packetx,
+        """ ++ [128512]%N ++ runes_of_ascii """ : matchKey,
+        0 : T,
+    },
+    @lengthOf(calculatedFrom)
+    matchKey {
+        repeat char[1] matchKey `two words`,
+    },
+}
+
+root packet falsey {
+    //
+    char[007] leftPad `100% of %d`,
+    repeat i32 tag ``,
+    @calculatedFrom(""a	b"")
+    @lengthOf(chars)
+    repeat rootA ``,
+    @lengthOf(crc)
+    repeat Z9_ {
+        repeat int16 rootA,
+        packetx @lengthOf(string_) `line1
+                line2`,
+        repeat tag {
+            char chars,
+            u8 metadata,// c
+            float32 float,
+            match matchKey as options1 {
+                007 : chars,
+            },
+        },
+        char[] float,
+    },
+    zchar[0] u @lengthOf(stringy) `
+        `,
+}
+
+packet T {
+    lengthOf @lengthOf(chars) `tab	here`,
+    x_y_z {
+        stringy @calculatedFrom(""CRC32""),
+    },
+}
+
+packet zchar {
+    @lengthOf(As)
+    char[] u,
+    @calculatedFrom(""{,}"")
+    i64 falsey `it's`,
 }
 
 packet float {
+}")).
+Eval vm_compute in ("<<<M3845>>>" ++ check (runes_of_ascii "packet a1 {
+    repeat char[007] stringy,
 }
 
-//	t
-// packet A { u8 x, }
-MetaData Foo {
-}")).
-Eval vm_compute in ("<<<M488>>>" ++ check (runes_of_ascii "options
-{
-matchKey = 42/// triple
-x='0' ;
-// packet A { u8 x, }
-//
-charz
-=
-// packet A { u8 x, }
-// trailing space 
-true  ; } MetaData BodyLength
-{
-uint8
-pack,1 zchar[ ]float ,  float32 x_y_z `` ,u32
-_x,i16 body  , }
-")).
-Eval vm_compute in ("<<<M463>>>" ++ check (runes_of_ascii "options
-{
-matchKey = 42/// triple
-x='0' ;
-// packet A { u8 x, }
-//
-charz
-=
-// packet A { u8 x, }
-// trailing space 
-true  ; } MetaData {
-BodyLength
-uint8
-pack,zchar[ 1]float ,  float32 x_y_z `` ,u32
-_x,i16 body  , }
-")).
-Eval vm_compute in ("<<<M526>>>" ++ check (runes_of_ascii "options
-{
-matchKey = 42/// triple
-x='0' ;
-// packet A { u8 x, }
-//
-charz
-=
-// packet A { u8 x, }
-// trailing space 
-true  ; } MetaData BodyLength
-{
-uint8
-pack,zchar[ 1]float ,  float32 x_y_z `` u32
-_x,i16 body  , }
-")).
-Eval vm_compute in ("<<<M486>>>" ++ check (runes_of_ascii "options
-{
-matchKey = 42/// triple
-x='0' ;
-// packet A { u8 x, }
-//
-charz
-=
-// packet A { u8 x, }
-// trailing space 
-true  ; } MetaData BodyLength
-{
-uint8
-pack, 1]float ,  float32 x_y_z `` ,u32
-_x,i16 body  , }
-")).
-Eval vm_compute in ("<<<M1342>>>" ++ check (runes_of_ascii "packet Inner { u8 a
-    // c4
-,
-    // c5
-}
-    // c6
-root // c7a
-  // c7b
-packet // c8a
-  // c8b
-P // c9a
-  // c9b
-{
-    // c10
-repeat Inner items ,
-    // c14
-u8 // c15
-x
-    // c16
-, // c17
-} ")).
-Eval vm_compute in ("<<<M1798>>>" ++ check (runes_of_ascii "packet A {
-    Inner {
-        match k as n {
-            [
-                1, 22, 007, 4, 5,
-                66, 7, 8, 9, 10,
-                11
-            ] : B,
-        },
+packet Foo {
+    stringy,
+    match _x as o {
+        10 : a1,
     },
-}")).
-Eval vm_compute in ("<<<M703>>>" ++ check (runes_of_ascii "// c
-packet i64_ {	char[] calculatedFrom , } packet
-trueish  {@calculatedFrom(
-""a\\"" o ) { i32 falsey@lengthOf( uint8x ),
-} , } // `tick` ""quote"" 'q'
-options {// c
-Z9_ = ' '//
-}
-")).
-Eval vm_compute in ("<<<M1305>>>" ++ check (runes_of_ascii "// top
-MetaData
-    // c0
-_x
-    // c1
-{
-    // c2
-zchar[
-    // c3
-4294967296
-    // c4
-]
-    // c5
-lengthOf
-    // c6
-`// not a comment`
-    // c7
-,
-    // c8
-}
-    // c9
-")).
-Eval vm_compute in ("<<<M1513>>>" ++ check (runes_of_ascii "packet lengthOf {
     @leftPad()
-    // a // b
-    @tag(7)
-    u8 BodyLength,
-    char[1] chars `
-    `,
-    @tag(00)
-    char[0] Z9_ @lengthOf(float) `u8 x,`,
-}")).
-Eval vm_compute in ("<<<M346>>>" ++ check (runes_of_ascii "packet BodyLength {repeat u128 charz ,
-i64 i64_
-@lengthOf(
-asx )
-,
-repeat
-    i64_ { repeat int `u8 x,` , //	t
-},repeat float32
-pack
-`" ++ [233]%N ++ runes_of_ascii "` ,
-    }")).
-Eval vm_compute in ("<<<M200>>>" ++ check (runes_of_ascii "
-root packet	f32a {char[]x_y_z `doc` ,@calculatedFrom(	""CRC32""
-) A tag `u8 x,`
-,
-int , } options { Packet =""1""
-    ; } options {  } 	 ")).
-Eval vm_compute in ("<<<M198>>>" ++ check (runes_of_ascii "// c
-options{
-    //
-    repeatCount = '0';leftPad =
-' ';
-// c
-/// triple
-msg_type
-    = char[ 10
-]
-;}
-packet
-    Packet {//x
-}
-")).
-Eval vm_compute in ("<<<M1544>>>" ++ check (runes_of_ascii "packet A {
-    Inner {
-        u8 x `a
-        b`,
-        Deep {
-            u8 y `a
-            b`,
+    // 50% %s
+    Pad @calculatedFrom(""// no comment""),// 50% %s
+    repeat a1 a1 `two words`,
+    i32 falsey `two words`,
+    @calculatedFrom(""CRC32"")
+    x @calculatedFrom(""\" ++ [233]%N ++ runes_of_ascii """) `u8 x,`,
+    repeat uint8x {
+        u {
+            char[] u128 @lengthOf(leftPad) `{ , }`,
+            roots,
+            repeat u16 metadata,
         },
     },
+    zchar[007] BodyLength @calculatedFrom(""a\\""),// " ++ [27880; 37322]%N ++ runes_of_ascii "
+    char[] o @lengthOf(f32a),
+}
+
+root packet charz {
+    @tag(42)
+    rootA asx `
+        `,
+    a1 {
+        u32 stringy,
+        float @calculatedFrom(""" ++ [233]%N ++ runes_of_ascii "t" ++ [233]%N ++ runes_of_ascii """) `line1
+                line2`,
+        repeat repeatCount a1,
+        repeat msg_type `{ , }`,
+    },
+    u @calculatedFrom(""CRC32"") `line1
+        line2`,
+    @lengthOf(f32a)
+    match zchar as msg_type {
+        [""{,}""] : chars,
+        ""packet"" : As,
+        [1, ""CRC32"", ""a\""b"", 0] : tag,
+    },
+    repeat float32 tag `" ++ [233]%N ++ runes_of_ascii "`,
+    @tag(10)
+    string string_ @calculatedFrom(""x y"") `line1
+        line2`,
+    @tag(4294967296)
+    repeat char o,
+    // c
+    repeat zchar[42] msg_type `crlf
+        line`,
+    char[42] BodyLength @calculatedFrom(""a	b""),
 }")).
-Eval vm_compute in ("<<<M632>>>" ++ check (runes_of_ascii "MetaData
-    // trailing space 
-    matchKey
-{ u64 chars // a // b
-,char[] lengthOf `// not a comment`
-    , , //	t
+Eval vm_compute in ("<<<M3908>>>" ++ check (runes_of_ascii "
+packet x_y_z
+{	//x
+	  repeat  Foo `crlf
+line`  ,int64
+f32a
+
+,
+match falsey
+    as
+int 
+{ 	 // " ++ [27880; 37322]%N ++ runes_of_ascii "
+	[
+
+1
+	] 	 // 50% %s
+	:
+	Logon ,[ ""\n""	,
+""// no comment""
+	]: repeatCount
+
+,
+
+[""\" ++ [233]%N ++ runes_of_ascii """
+
+    ,""it's""
+    ,
+3	]
+	:	o
+	,
+
+    65535:	repeatCount, [""abc"" 
+,""abc""
+]
+: charz
+
+}  , chars
+
+    {  repeat
+
+    char[]i64_  ,
+}
+
+    ,
+	repeat
+i64_
+	o`" ++ [233]%N ++ runes_of_ascii "` 
+
+    //x
+  ,	match
+uint8x
+as	// a // b
+	_x 
+{	""" ++ [233]%N ++ runes_of_ascii "t" ++ [233]%N ++ runes_of_ascii """
+    :BodyLength // 50% %s
+  ,  ""x y""
+:	charz
+	, 
+[
+	007 ]  // 50% %s
+:
+
+charz 
+,  ""it's""	:  // " ++ [128512]%N ++ runes_of_ascii " emoji
+	  MetaDataX 007:
+
+    u128,/// triple
+	[  1 ,  // 50% %s
+    	""a\\"" ,
+	65535 , 	 // 50% %s
+42
+
+    , ""a\""b"" ] : 
+i8i8, }
+    ,//
+	@leftPad(
+)
+
+    match
+repeatCount as
+u8x { 
+[
+""it's"" ]
+: 
+trueish
+
+, } 
+,
+@lengthOf(  //	t
+
+  i8i8 ) int8 
+	// " ++ [128512]%N ++ runes_of_ascii " emoji
+
+	// " ++ [27880; 37322]%N ++ runes_of_ascii "
+  f32a @lengthOf(
+
+Header
+    // @lengthOf(
+      // `tick` ""quote"" 'q'
+    )  `u8 x,`  // " ++ [128512]%N ++ runes_of_ascii " emoji
+,@lengthOf(
+    lengthOf // `tick` ""quote"" 'q'
+	)  /// triple
+  @calculatedFrom( 	 // c
+
+  """ ++ [128512]%N ++ runes_of_ascii """ 	 // packet A { u8 x, }
+  	)	char[]
+    roots
+
+, 
+@calculatedFrom(  ""a	b"" )
+@lengthOf(
+    trueish )//	t
+
+	@calculatedFrom( ""CRC32"" ) repeat
+
+T{
+repeat x T	, 
+}, 	 //x
+}
+
+")).
+Eval vm_compute in ("<<<M571>>>" ++ check (runes_of_ascii "root packet A {match rootA as  Packet /// triple
+{
+[3 , ""// no comment"" ,""" ++ [128512]%N ++ runes_of_ascii """
+,""""	,
+    """"]: int // 50% %s
+, [	0 , /// triple
+""1""
+, """ ++ [128512]%N ++ runes_of_ascii """,0, ""x y""	, ""it's""
+    , 00
+,
+    ""it's"" ]
+    :
+    pack , 00 : trueish // c
+,
+    0123456789 : A , [7 ,""x y"" , ""\" ++ [233]%N ++ runes_of_ascii """ , ""1"" , 0123456789
+    ] : Header ,
+007 :repeatCount ,} , char[] repeatCount@calculatedFrom(
+""{,}"" ) ,// " ++ [128512]%N ++ runes_of_ascii " emoji
+float{ match repeatCount as u8x {10:a1 //	t
+3	: asx // `tick` ""quote"" 'q'
+[""" ++ [28040; 24687]%N ++ runes_of_ascii """
+    // `tick` ""quote"" 'q'
+    ] :	leftPad
+    7:
+    asx // a // b
+, 007 : x, ""x y"": Logon
+    // 50% %s
+    , }
+,	zchar[
+    42 ] repeatCount @calculatedFrom(
+""\n""
+    )	,
+float32 // " ++ [128512]%N ++ runes_of_ascii " emoji
+repeatCount `{ , }` , string tag
+`
+`
+, } , x Logon
+// trailing space 
+//
+`
+` ,
+repeat u128
+,@calculatedFrom(  ""a\\""
+)
+zchar[ 3
+    /// triple
+    ] Logon
+    ,	@tag(
+007 )
+    Pad`100% of %d` , } packet //	t
+chars { @lengthOf(// a // b
+lengthOf) @tag( 10 )  repeat	string_ , }	packet Z9_  {
+charz , match
+    metadata as charz {
+7
+    :Foo , 42 :
+float,""a\""b""
+: zchar ,[1,4294967296 ,""it's"" ,1 // trailing space 
+]  : crc ,
+    }
+, }
+")).
+Eval vm_compute in ("<<<M724>>>" ++ check (runes_of_ascii "packet roots { @rightPad ( '\x00' )	char[]
+    u8x	@lengthOf( float )`say ""hi""`
+, repeat rootA
+{ zchar[
+42
+] As
+`say ""hi""` , } ,} options
+    {A = true ; uint8x =  ' '
+;
+    } packet MetaDataX {
+@calculatedFrom( ""it's"" )u64 lengthOf
+@calculatedFrom( ""a\\""
+    ) `it's`// " ++ [27880; 37322]%N ++ runes_of_ascii "
+,string_
+    { metadata , float64 len //
+`" ++ [28040; 24687; 31867; 22411]%N ++ runes_of_ascii "` ,
+    repeat
+u `say ""hi""`
+, u BodyLength
+    , // `tick` ""quote"" 'q'
+} ,repeat T, @tag( 0123456789)
+    float// " ++ [27880; 37322]%N ++ runes_of_ascii "
+T , @tag( 10 )
+@tag(
+3 )
+    @rightPad(
+) repeat body {
+// c
+// c
+int32	float@calculatedFrom( ""abc"") , repeat
+    uint32 asx
+    , repeat asx {
+    repeat roots
+    { int64 _x
+    `100% of %d` ,	len rootA ``
+    , }
+, repeat zchar[
+    42]len, uint8x
+i8i8	, f32a  @lengthOf( Logon
+// packet A { u8 x, }
+// " ++ [27880; 37322]%N ++ runes_of_ascii "
+)
+,} ,} // packet A { u8 x, }
+, repeat
+Foo { Header { Header
+    x_y_z ,
+    /// triple
+    zchar
+// a // b
+// c
+x_y_z	, } , } ,// a // b
+As{ repeat
+u32
+Pad `// not a comment` ,
+    // a // b
+    }
+    ,leftPad	@calculatedFrom(""a\\"" ) // c
+, } packet body	{ }")).
+Eval vm_compute in ("<<<M1028>>>" ++ check (runes_of_ascii "  packet
+    repeatCount {	match u
+as tag
+    { 1 :
+x , 7 :
+zchar
+,	4294967296	:f32a // " ++ [128512]%N ++ runes_of_ascii " emoji
+}
+, }
+packet _x{ float64 falsey ,@tag(
+0123456789
+)
+/// triple
+//	t
+char[] crc
+    ,Logon
+    {char[ 007 ]
+// trailing space 
+//	t
+MetaDataX	@calculatedFrom( ""a\""b""
+)
+`doc`
+, },}
+    options {} // 50% %s
+packet a1/// triple
+{ i16 matchKey
+@calculatedFrom(
+""{,}"" )
+, falsey { match
+    o as len{ 7:  As , } // a // b
+,
+    f32a { match i8i8 as roots{ ""{,}"" : msg_type 7
+:
+string_ 65535 : roots , ""\" ++ [233]%N ++ runes_of_ascii """ : i8i8,
+    } ,
+x_y_z @calculatedFrom(
+""it's""  )`line1
+line2`
+,
+zchar[
+1	] chars @lengthOf( o ) ,
+    uint8 Pad
+    ,} , string
+T  , char[ 4294967296 ] Logon@calculatedFrom(""packet""
+)`" ++ [28040; 24687; 31867; 22411]%N ++ runes_of_ascii "`
+    , }
+    , repeat float x_y_z , repeat f64  stringy , @tag(
+    3 )
+    @leftPad ( ) uint16 string_ @lengthOf( f32a// packet A { u8 x, }
+)`{ , }`
+    , @rightPad ( '0'
+)/// triple
+crc
+    // `tick` ""quote"" 'q'
+    falsey ,
+    }
+packet
+    falsey { }
+
+")).
+Eval vm_compute in ("<<<M3503>>>" ++ check (runes_of_ascii "// top
+packet // c0
+A { u8 a
+    // c4
+, // c5
+} // c6
+packet // c7a
+  // c7b
+B // c8
+{ // c9
+u16
+    // c10
+b // c11a
+  // c11b
+, // c12
+} // c13
+packet C // c15a
+  // c15b
+{ u32
+    // c17
+c , // c19
+} // c20a
+  // c20b
+root // c21a
+  // c21b
+packet M {
+    // c24
+u16 // c25a
+  // c25b
+Kc // c26
+,
+    // c27
+u16 Kb
+    // c29
+, u16
+    // c31
+Ka , match // c34a
+  // c34b
+Kc // c35
+as // c36
+X // c37
+{ // c38
+9 : A , 10 // c43a
+  // c43b
+:
+    // c44
+B // c45a
+  // c45b
+,
+    // c46
+} // c47a
+  // c47b
+,
+    // c48
+match // c49
+Kb as Y // c52
+{ // c53
+2 // c54
+: // c55
+C // c56
+, // c57a
+  // c57b
+1 // c58
+: // c59a
+  // c59b
+A // c60a
+  // c60b
+, // c61a
+  // c61b
+} // c62
+, match // c64a
+  // c64b
+Ka
+    // c65
+as // c66
+Z // c67
+{ 1 // c69
+: // c70a
+  // c70b
+B // c71a
+  // c71b
+,
+    // c72
+} // c73
+, // c74a
+  // c74b
+A , B // c77a
+  // c77b
+, C
+    // c79
+, } // c81a
+  // c81b
+")).
+Eval vm_compute in ("<<<M4076>>>" ++ check (runes_of_ascii "packet zchar {
+    repeat char[10] repeatCount `line1
+    line2`,
+    zchar[10] rootA @calculatedFrom(""packet""),
+    f32 crc `{ , }`,
+    repeat char[255] msg_type,
+}
+
+options {
+    u8x = ""\n"";
+}
+
+packet trueish {
+    repeat i64_,
+    @calculatedFrom(""// no comment"")
+    // `tick` ""quote"" 'q'
+    @tag(4294967296)
+    repeat matchKey {
+        As `
+        `,
+        u8x `it's`,
+        Packet @lengthOf(T) `a\`,
+    },// a // b
+    lengthOf packetx `" ++ [28040; 24687; 31867; 22411]%N ++ runes_of_ascii "`,
+    roots {
+        MetaDataX len,
+        zchar {
+            match Packet as MetaDataX {
+                // 50% %s
+                // `tick` ""quote"" 'q'
+                1 : x_y_z,
+                7 : o,
+                0123456789 : i64_,
+            },
+        },// a // b
+    },
+    @calculatedFrom(""// no comment"")
+    repeat int16 charz `line1
+    line2`,// c
+    @tag(0123456789)
+    u `
+    `,
 }")).
-Eval vm_compute in ("<<<M593>>>" ++ check (runes_of_ascii "MetaData
+Eval vm_compute in ("<<<M337>>>" ++ check (runes_of_ascii "options{  Foo =true
+    ; /// triple
+_x //x
+=
+// 50% %s
+// `tick` ""quote"" 'q'
+f32 // @lengthOf(
+pack
+    = ""1""; } packet T
+{ @tag( 007
+    )
+    @lengthOf( Logon ) @lengthOf(packetx )uint64 As`crlf
+line` , // packet A { u8 x, }
+match u128 as o { """ ++ [233]%N ++ runes_of_ascii "t" ++ [233]%N ++ runes_of_ascii """: int,
+} ,T
+@calculatedFrom( ""`tick`"" )
+// packet A { u8 x, }
+// " ++ [128512]%N ++ runes_of_ascii " emoji
+, @tag( 65535 ) match u as  body
+{ ""\" ++ [233]%N ++ runes_of_ascii """ :
+trueish
+,
+// `tick` ""quote"" 'q'
+// @lengthOf(
+[
+    1 ] : rootA
+}	, @lengthOf(
+    // c
+    zchar ) match // @lengthOf(
+BodyLength as	asx {3
+:asx // c
+, // 50% %s
+""a\""b"":
+// a // b
+//x
+f32a , 255
+:	f32a ,
+    // 50% %s
+    [
+7 , //	t
+0123456789 , ""\n"" // a // b
+, 42
+    ,
+    0
+, 0 , 0123456789 ] :
+x
+,
+    42 :matchKey
+//
+//x
+[ ""abc"" ] : pack ,
+}
+, }
+    root packet
+charz { @rightPad // a // b
+(	)
+    // `tick` ""quote"" 'q'
+    u , //
+}")).
+Eval vm_compute in ("<<<M3782>>>" ++ check (runes_of_ascii "
+root
+packet	options1
+
+    { @lengthOf(	f32a
+    )
+//
+    repeat
+    string float
+
+`crlf
+line`
+	,@lengthOf( msg_type
+	)	@calculatedFrom(""{,}""// @lengthOf(
+      ) zchar[
+
+3	]
+Header	// c
+, 	 // a // b
+      f64  i64_ `100% of %d`
+,
+    @lengthOf(
+
+    Z9_ 
+)
+
+    match  Header
+as
+	msg_type { 
+""" ++ [233]%N ++ runes_of_ascii "t" ++ [233]%N ++ runes_of_ascii """  :
+leftPad,
+    }, 
+Z9_
+
+{
+
+    match lengthOf
+
+as  x_y_z{ 
+[ 
+// @lengthOf(
+10 ,4294967296	]	/// triple
+
+: 
+packetx
+
+""a	b""
+
+:
+matchKey	7 :
+leftPad,[ ""x y""
+
+    ,
+
+4294967296	// trailing space 
+    	, 
+1 ,
+
+""a\""b"",
+	""a\""b""
+	,  // `tick` ""quote"" 'q'
+    	""x y"" ]
+:	string_
+}  ,char BodyLength
+	`a\`/// triple
+
+  ,
+    }
+    , @rightPad ('\x00'
+    )
+i64
+    Pad
+	,
+    //	t
+  // " ++ [27880; 37322]%N ++ runes_of_ascii "
+	@rightPad
+    ( 
+'\x00'	)
+	f32a
+	@calculatedFrom(
+""a	b"" 
+    //x
+	// a // b
+    ) ,
+}")).
+Eval vm_compute in ("<<<M841>>>" ++ check (runes_of_ascii "
+packet u /// triple
+{
+A , u
+repeatCount
+`tab	here` ,@lengthOf( //
+msg_type)
+crc@lengthOf( // @lengthOf(
+len
+    // c
+    )
+    , char[] matchKey,  @calculatedFrom( """ ++ [28040; 24687]%N ++ runes_of_ascii """
+) repeat
+Z9_, zchar[ 65535 ]charz , i16 pack @lengthOf(	charz ) , chars@calculatedFrom(""\n"" //x
+) , @rightPad (
+'0' )
+int16	calculatedFrom`crlf
+line` , @tag( 7) int64
+    chars
+    `doc` // a // b
+,
+    } packet chars { char[
+42]asx @calculatedFrom(  ""packet"" ) , match// trailing space 
+roots as
+    crc	{ //
+0 :
+u
+    , // c
+00
+:f32a  ,[
+    65535 ,""abc""
+] :
+// `tick` ""quote"" 'q'
+// packet A { u8 x, }
+falsey , // " ++ [27880; 37322]%N ++ runes_of_ascii "
+""{,}""
+//	t
+/// triple
+:
+tag
+, },  calculatedFrom i8i8 `two words` ,
+    // packet A { u8 x, }
+    } options { _x =char[]
+    /// triple
+    ;	}
+")).
+Eval vm_compute in ("<<<M3994>>>" ++ check (runes_of_ascii "packet
+
+    Packet  {
+matchKey
+`tab	here`  ,
+	@calculatedFrom(""// no comment""
+) options1 
+`a\`
+    , @tag( 65535
+)
+    zchar[
+	10	]
+u128 `it's`
+
+,	@lengthOf( repeatCount
+
+)repeat char[]
+
+    Logon
+	,
+
+    len 
+      //x
+@lengthOf(
+leftPad 
+)`100% of %d` ,
+
+    @lengthOf(charz 
+
+// a // b
+  )
+@lengthOf(x_y_z) @leftPad
+    (
+
+'\x00' 
+)	// c
+
+trueish
+@lengthOf( string_
+
+    ) ,  repeat
+
+zchar {	repeat 
+char[0
+] o 	 // " ++ [27880; 37322]%N ++ runes_of_ascii "
+
+  `100% of %d`
+,
+
+    match
+Packet  as f32a 
+{ 0: 	 /// triple
+a1  , 65535 : 
+leftPad
+    // `tick` ""quote"" 'q'
+	}
+
+    ,
+match
+    rootA
+as  stringy  { 
+42 	 //
+:
+
+    _x ,
+} ,repeat
+
+string
+    float
+,  } , char[ 42
+
+]
+charz @calculatedFrom( """ ++ [28040; 24687]%N ++ runes_of_ascii """ 
+),
+}")).
+Eval vm_compute in ("<<<M963>>>" ++ check (runes_of_ascii "
+MetaData Packet  {
+} packet
+    stringy{ zchar[
+00 ] tag @lengthOf( u )/// triple
+`it's` ,
+repeat char[ 255 ]Foo `line1
+line2`	,@tag( 0123456789
+) a1 @lengthOf(
+    Header	) , @rightPad ( '\x00' ) match MetaDataX  as	u128 {// 50% %s
+[
+    """ ++ [28040; 24687]%N ++ runes_of_ascii """ ]	: calculatedFrom
+, 0123456789 :
+    _x
+    ,
+""1"" :
+u [
+""" ++ [28040; 24687]%N ++ runes_of_ascii """ ,
+""`tick`"" ]
+//x
+// @lengthOf(
+:
+int,
+    ""\n""
+: x ,7: asx,} ,As crc`doc`	,@lengthOf(	charz
+    // " ++ [128512]%N ++ runes_of_ascii " emoji
+    )
+    uint8x chars ,
+    /// triple
+    } options
+{
+    i64_ = zchar[
+007
+] ; pack =
+42 ; // 50% %s
+tag =// " ++ [128512]%N ++ runes_of_ascii " emoji
+42
+    ;
+} options
+{ metadata
     // trailing space 
+    = zchar[ 65535 ] ; a1 = '0' // 50% %s
+; roots = 00 o =	42
+    Pad =	false ; }")).
+Eval vm_compute in ("<<<M1055>>>" ++ check (runes_of_ascii "MetaData uint8x
+    {T
+    matchKey ,
+uint8 u`u8 x,` ,} MetaData
+// c
+// trailing space 
+o {
+    //	t
+    i64 Z9_ ,
+roots
+    packetx, char[] rootA`it's` , calculatedFrom u8x
+,
+} root packet
+u { o
+    @lengthOf( i8i8 ) `two words`
+// " ++ [128512]%N ++ runes_of_ascii " emoji
+// 50% %s
+, uint16
+stringy, stringy,
+} root packet // 50% %s
+i8i8 {match
+    len as //x
+T
+{
+[ // @lengthOf(
+65535
+] : Logon , 65535 :
+u128
+    , ""a	b""
+    :options1 , [ ""a	b"" , 4294967296
+] :
+options1 1 : Foo
+, }  , metadata @calculatedFrom(""a\\"" )
+    // c
+    , uint16
+    o `say ""hi""` ,
+@rightPad
+    (
+    '\x00' ) u16 Foo , @calculatedFrom(
+""" ++ [28040; 24687]%N ++ runes_of_ascii """ )  uint8x
+    , }packet u8x {
+u64 a1`line1
+line2` ,}")).
+Eval vm_compute in ("<<<M4166>>>" ++ check (runes_of_ascii "
+// top
+
+  MetaData	// c0
+
+	Pad	// c1
+    {// c2
+  	x_y_z 	 // c3
+	  a1// c4
+    	,  // c5
+    int8 // c6
+
+  trueish// c7
+	`two words` // c8
+  ,	// c9
+  char[] // c10
+		x_y_z  // c11
+    `{ , }`// c12
+  ,  // c13
+	zchar[ // c14
+  1// c15
+		]  // c16
+    pack // c17
+	`
+`	// c18
+  , 	 // c19
+      len // c20
+    i64_// c21
+      ,	// c22
+
+  } 	 // c23
+	MetaData  // c24
+	crc // c25
+
+{// c26
+zchar[// c27
+	7 // c28
+
+	] // c29
+    	Z9_ // c30
+  	, 	 // c31
+	char[]// c32
+  options1 	 // c33
+
+, // c34
+
+	uint32	// c35
+
+	options1// c36
+	, // c37
+	  u	// c38
+	  MetaDataX  // c39
+  , // c40
+      }  // c41
+ 
+")).
+Eval vm_compute in ("<<<M346>>>" ++ check (runes_of_ascii "packet
+    float {
+    @tag(7  ) @calculatedFrom(
+""a	b"" )	match Foo as zchar { 00	:Logon ,
+""`tick`"" /// triple
+:Pad,  [ 1,
+    """ ++ [233]%N ++ runes_of_ascii "t" ++ [233]%N ++ runes_of_ascii """ ,	""// no comment""
+,  ""\" ++ [233]%N ++ runes_of_ascii """ , 007 ] :f32a ,""CRC32"" :i64_ ,}
+,
+@lengthOf(A
+    )// c
+char[
+0 ]
+u128 `u8 x,` ,}
+    packet Logon { } root
+    packet a1{f64 asx, @leftPad (
+) char Pad// c
+,@leftPad //	t
+()
+repeat //	t
+msg_type `
+`,@lengthOf(
+tag )uint64 o @lengthOf(A ), @lengthOf( Logon )
+/// triple
+//	t
+repeat // c
+string i8i8 `" ++ [233]%N ++ runes_of_ascii "`,
+char[
+65535]
+float ,	}
+options { Header
+// packet A { u8 x, }
+// c
+= false  ; options1
+= '0'asx=65535  ;
+crc =
+'0' ;}
+")).
+Eval vm_compute in ("<<<M1373>>>" ++ check (runes_of_ascii "root
+// trailing space 
+//	t
+packet
+    Logon {
+    // @lengthOf(
+    @tag( 3)@lengthOf( pack )@lengthOf(
+tag
+    ) char[] A
+    `` ,uint8 roots ,	@rightPad ( '0'
+) @lengthOf(  As
+)
+    // a // b
+    @tag( 3 ) repeat asx// @lengthOf(
+rootA `crlf
+line`
+,
+repeatCount ,} options
+{ rootA	= zchar[ 1];
+float
+    = false BodyLength = uint64
+    packetx //
+= false
+// a // b
+// c
+; msg_type
+= '0'
+;} MetaData calculatedFrom { char[ 3
+]// " ++ [27880; 37322]%N ++ runes_of_ascii "
+body
+, /// triple
+char[ 3 ]
+    packetx , float64
+Foo ,
+    float leftPad `100% of %d`
+    , int32
+MetaDataX`" ++ [28040; 24687; 31867; 22411]%N ++ runes_of_ascii "` //	t
+,}")).
+Eval vm_compute in ("<<<M469>>>" ++ check (runes_of_ascii "packet
+BodyLength { @rightPad (' '
+)
+@rightPad(  '0' ) char[]
+    // `tick` ""quote"" 'q'
+    x_y_z @calculatedFrom(
+""CRC32"" )
+`{ , }` ,	zchar[ 007] o
+    //
+    `" ++ [28040; 24687; 31867; 22411]%N ++ runes_of_ascii "`,
+    u16 Pad
+,
+    // trailing space 
+    }  packet Pad { // `tick` ""quote"" 'q'
+uint64 matchKey // a // b
+@lengthOf( calculatedFrom
+)
+    , match body
+    as  crc //x
+{ 0123456789 :	u8x, [
+    // " ++ [128512]%N ++ runes_of_ascii " emoji
+    ""`tick`""  ,""\n""
+] :
+falsey ,
+00 // @lengthOf(
+: Pad , ""a	b""
+:
+    u128
+[ ""it's""/// triple
+,//	t
+65535 , ""1"" ,1// 50% %s
+]
+:	lengthOf  , } //	t
+,} /// triple")).
+Eval vm_compute in ("<<<M620>>>" ++ check (runes_of_ascii "packet rootA // " ++ [128512]%N ++ runes_of_ascii " emoji
+{ }
+root
+packet body { @lengthOf(
+    Pad
+    // " ++ [27880; 37322]%N ++ runes_of_ascii "
+    ) _x	lengthOf,float64 a1 `` ,@calculatedFrom( // trailing space 
+""a	b"" ) char[  3
+// @lengthOf(
+// " ++ [128512]%N ++ runes_of_ascii " emoji
+] body , _x
+, repeat falsey x ,packetx
+    { u32
+string_ @calculatedFrom(	""a	b"" )
+,
+    } , @rightPad
+    ('0' )
+    @lengthOf(
+Logon )@calculatedFrom( ""// no comment"" ) char[] Packet `// not a comment` , @calculatedFrom(
+""a	b"" )
+    char[ 10
+]string_ @lengthOf(
+Pad ) , @lengthOf( i8i8) u64 // trailing space 
+options1`two words` , }
+")).
+Eval vm_compute in ("<<<M292>>>" ++ check (runes_of_ascii "// c
+packet T
+    { @leftPad(
+'\x00' ) string pack @lengthOf( Pad),
+    //	t
+    repeat	asx metadata ,
+match	len as	stringy{ ""CRC32"": uint8x }	,
+char[]BodyLength , trueish
+@calculatedFrom(""" ++ [233]%N ++ runes_of_ascii "t" ++ [233]%N ++ runes_of_ascii """ )`tab	here` , zchar[ 00]int @lengthOf(  f32a) , // 50% %s
+repeat u// " ++ [27880; 37322]%N ++ runes_of_ascii "
+_x `
+` , repeat a1 { leftPad@lengthOf( roots ) `it's`
+    , } ,
+    @lengthOf( metadata
+    )
+    // 50% %s
+    @calculatedFrom( ""a\\""
+) int64 //x
+trueish
+`// not a comment`
+    ,@tag(
+    42	)
+a1 Foo,
+// " ++ [128512]%N ++ runes_of_ascii " emoji
+// @lengthOf(
+} //x")).
+Eval vm_compute in ("<<<M17>>>" ++ check (runes_of_ascii "packet
+    u8x {  leftPad,	repeat MetaDataX `{ , }`, lengthOf@calculatedFrom( """ ++ [128512]%N ++ runes_of_ascii """
+)
+    ,@calculatedFrom( ""a	b""
+) @lengthOf(
+/// triple
+// c
+uint8x	) uint16
+    // c
+    Packet , match i64_ as  asx
+{ ""a\""b""
+: len ,	}
+,@rightPad( ' ' ) uint64 stringy// @lengthOf(
+@lengthOf( a1 )
+, // " ++ [27880; 37322]%N ++ runes_of_ascii "
+@leftPad(
+) u8 stringy ,
+    repeat/// triple
+f64//
+uint8x `line1
+line2`, BodyLength
+/// triple
+// a // b
+,
+@calculatedFrom( ""// no comment"" )
+    i64_ string_ // " ++ [128512]%N ++ runes_of_ascii " emoji
+`100% of %d` ,}
+")).
+Eval vm_compute in ("<<<M4244>>>" ++ check (runes_of_ascii "  packet
+    repeatCount {	repeat repeatCount
+
+{
+	match
+
+    float as
+    charz	{ 007 :
+	Packet
+	,""" ++ [28040; 24687]%N ++ runes_of_ascii """: u128  ,  ""abc"":  A	,
+}	, 
+uint8x,  // c
+} ,@calculatedFrom(
+
+    ""`tick`""
+)
+	char[]
+
+float,
+
+    Foo 
+T`100% of %d` 
+,	roots rootA ,
+char rootA
+//	t
+    	, @tag(	7
+
+    ) 
+        //	t
+//x
+  charz
+
+o `` ,
+char[
+
+    007	] msg_type @lengthOf(	x_y_z ) , 	 //x
+}
+
+    packet // 50% %s
+
+MetaDataX
+
+{
+	i16
+_x
+@calculatedFrom(""\" ++ [233]%N ++ runes_of_ascii """)
+	, } ")).
+Eval vm_compute in ("<<<M3708>>>" ++ check (runes_of_ascii "
+//	t
+
+  options  
+  // c
+
+  // a // b
+
+  { leftPad
+    =' '
+    ;
+// " ++ [27880; 37322]%N ++ runes_of_ascii "
+len
+= false
+    ;
+lengthOf=char[ 7
+]  ;	// c
+  matchKey	=
+
+' '
+; roots
+    =
+false; } // packet A { u8 x, }
+      packet Logon
+{
+
+} MetaData  zchar 
+{ int64 // 50% %s
+	zchar,  char[
+
+    4294967296
+] zchar
+,
+chars Foo
+	``, 	 // `tick` ""quote"" 'q'
+
+	zchar[
+0123456789
+]rootA , a1  body , 
+    // trailing space 
+
+//x
+i16 matchKey 
+`100% of %d`	,
+
+    }
+")).
+Eval vm_compute in ("<<<M4363>>>" ++ check (runes_of_ascii "packet o {
+    len `line1
+    line2`,
+    // " ++ [128512]%N ++ runes_of_ascii " emoji
+    // packet A { u8 x, }
+    match MetaDataX as MetaDataX {
+        ""CRC32"" : matchKey,
+    },
+}
+
+MetaData crc {
+    calculatedFrom metadata,
+    int32 msg_type,
+}
+
+MetaData len {
+    char[0] Pad `u8 x,`,
+}
+
+packet MetaDataX {
+}
+
+MetaData tag {
+    char[3] matchKey,
+    Pad BodyLength,
+    uint64 leftPad `a\`,
+    f64 uint8x `tab	here`,
+    crc calculatedFrom `" ++ [233]%N ++ runes_of_ascii "`,
+}")).
+Eval vm_compute in ("<<<M1287>>>" ++ check (runes_of_ascii "// " ++ [128512]%N ++ runes_of_ascii " emoji
+packet
+asx { // c
+match o as packetx { [ 1
+    , 65535 ,
+007
+    , """ ++ [233]%N ++ runes_of_ascii "t" ++ [233]%N ++ runes_of_ascii """ , ""{,}"" , """ ++ [233]%N ++ runes_of_ascii "t" ++ [233]%N ++ runes_of_ascii """ ] :stringy ""// no comment"" : body , ""\" ++ [233]%N ++ runes_of_ascii """: body
+,	""CRC32"" :
+    //
+    int,  65535
+//	t
+// `tick` ""quote"" 'q'
+: o } , @leftPad (//x
+' ' )@calculatedFrom( ""it's"" )	@calculatedFrom(
+    ""// no comment""	) repeat
+    asx { x , char[
+    42 ]
+    msg_type , } //	t
+,
+@lengthOf(As ) T// @lengthOf(
+tag ,
+    }
+")).
+Eval vm_compute in ("<<<M3709>>>" ++ check (runes_of_ascii "packet
+    falsey { 
+    // @lengthOf(
+
+@rightPad
+    (
+	' ')	int	a1	,
+    @calculatedFrom(""packet""	)@lengthOf(
+	lengthOf) repeat uint64  Logon 
+, char[
+
+3 
+]
+
+T  `crlf
+line` 
+
+/// triple
+    // " ++ [128512]%N ++ runes_of_ascii " emoji
+    ,	@rightPad
+	() @tag(
+
+255 
+) @lengthOf( BodyLength	) repeat	char[
+007
+]asx
+
+    ,repeat
+    _x
+Pad
+`a\`
+, int16 
+    //
+  //	t
+asx``
+
+,
+
+    char uint8x
+
+    `doc`
+,  } ")).
+Eval vm_compute in ("<<<M1310>>>" ++ check (runes_of_ascii "root
+    packet
+lengthOf{@tag( 7)// c
+Pad @lengthOf( roots )
+// packet A { u8 x, }
+// @lengthOf(
+`line1
+line2` , float64 o@lengthOf(asx
+), repeat uint8	i8i8
+`say ""hi""` , }
+packet
+    _x{
+    @calculatedFrom(	""\n""	) As @calculatedFrom( ""abc""
+)
+`// not a comment` ,	options1
+    @lengthOf(a1 )	,
+// trailing space 
+// `tick` ""quote"" 'q'
+@lengthOf( Z9_ ) //	t
+msg_type `` , }
+")).
+Eval vm_compute in ("<<<M3910>>>" ++ check (runes_of_ascii "options {  StringPrefixLenType
+	=
+
+    u32  ;
+
+FixedStringPadFromLeft	=
+
+    false
+
+;  }
+	packet
+Logout
+    {f64 Flags ,
+repeat
+    InTail1 
+{ int32  Flags	, zchar[
+	1
+]
+tag7 
+,},
+	repeat string
+	x,}
+    root
+
+packet	Trade	{
+    repeat	f32 Acct,
+
+InTail62
+
     {
-matchKey u64 chars // a // b
-,char[] lengthOf `// not a comment`
-    , //	t
+    u32  Qty  ,
+
+    zchar[
+	1
+
+] x
+	,}
+	,repeat
+
+string
+Side2  ,
+u16
+
+    Ref
+    ,} ")).
+Eval vm_compute in ("<<<M4163>>>" ++ check (runes_of_ascii "
+packet
+crc
+{
+    @lengthOf(f32a
+    )
+
+    @tag(
+	3
+)	repeat
+
+uint32
+	repeatCount
+    ,@tag(
+
+3 )
+    msg_type@lengthOf(MetaDataX 
+    // a // b
+  // packet A { u8 x, }
+  ) ,  @leftPad  ( '0'  ) match
+roots
+as
+	i64_
+{ 
+  //
+7  :
+    As
+    }
+	,  }	root
+packet
+    u128
+{	}
+packet lengthOf
+
+    {
+
+// @lengthOf(
+  //	t
+int16  u8x,
+    } ")).
+Eval vm_compute in ("<<<M3719>>>" ++ check (runes_of_ascii "packet chars {
+    @leftPad('0')
+    repeat tag a1 `// not a comment`,
+    match i8i8 as len {
+        007 : zchar,
+        [007, ""CRC32""] : _x,
+        """ ++ [233]%N ++ runes_of_ascii "t" ++ [233]%N ++ runes_of_ascii """ : A,
+    },
+    @lengthOf(options1)
+    uint8 tag,
+    x @lengthOf(i8i8) `" ++ [233]%N ++ runes_of_ascii "`,
+    charz u8x,
+    @lengthOf(Packet)
+    @leftPad(' ')
+    uint16 Z9_ @calculatedFrom(""" ++ [233]%N ++ runes_of_ascii "t" ++ [233]%N ++ runes_of_ascii """),
 }")).
-Eval vm_compute in ("<<<M966>>>" ++ check (runes_of_ascii "packet A {
+Eval vm_compute in ("<<<M3792>>>" ++ check (runes_of_ascii "
+// trailing space 
+
+	options{trueish 
+=
+    // `tick` ""quote"" 'q'
+  // packet A { u8 x, }
+	""it's""
+	;  MetaDataX 
+
+    // packet A { u8 x, }
+	// " ++ [27880; 37322]%N ++ runes_of_ascii "
+	=
+	// trailing space 
+		// trailing space 
+    ""// no comment"" ;  _x
+
+= 
+    //x
+    //x
+false 
+A	// " ++ [27880; 37322]%N ++ runes_of_ascii "
+      =
+""a	b""
+
+    ;  MetaDataX
+=0123456789
+	}  
+      //
+")).
+Eval vm_compute in ("<<<M252>>>" ++ check (runes_of_ascii "packet _x { repeat string_ {
+repeat //	t
+zchar[
+// 50% %s
+// " ++ [27880; 37322]%N ++ runes_of_ascii "
+3
+// trailing space 
+// c
+] u `doc` ,
+}
+    , A@calculatedFrom( ""abc"" ) `u8 x,` , matchKey{
+/// triple
+// " ++ [128512]%N ++ runes_of_ascii " emoji
+repeat string body  ,  zchar[ 4294967296 ]
+    // " ++ [128512]%N ++ runes_of_ascii " emoji
+    uint8x`u8 x,`
+    ,repeat Pad , Z9_ T , //x
+} ,
+    u8 int,
+}
+")).
+Eval vm_compute in ("<<<M2028>>>" ++ check (runes_of_ascii "packet	packetx { // trailing space 
+x_y_z
+{
+string
+charz ,
+string x// @lengthOf(
+`two words`
+    ,  u8x { // `tick` ""quote"" 'q'
+charz `100% of %d` // packet A { u8 x, }
+,}// " ++ [27880; 37322]%N ++ runes_of_ascii "
+,} , }
+    // a // b
+    packet metadata {  @leftPad ( '0') repeat i32 options1 ,u64 uint8x , @calculatedFrom(
+")).
+Eval vm_compute in ("<<<M4161>>>" ++ check (runes_of_ascii "packet charz {
+    @tag(10)
+    calculatedFrom @lengthOf(charz) `100% of %d`,
+    A @calculatedFrom(""\n""),
+    zchar[7] Header,
+    repeat calculatedFrom `it's`,
+    repeat options1 chars `" ++ [233]%N ++ runes_of_ascii "`,
+    T calculatedFrom `tab	here`,
+    repeat uint8 x_y_z `crlf
+        line`,
+    crc float,
+}")).
+Eval vm_compute in ("<<<M1954>>>" ++ check (runes_of_ascii "packet	packetx { // trailing space 
+x_y_z
+{
+string
+charz ,
+string x// @lengthOf(
+`two words`
+    ,  u8x { // `tick` ""quote"" 'q'
+charz `100% of %d` // packet A { u8 x, }
+,}// " ++ [27880; 37322]%N ++ runes_of_ascii "
+,} , match
+    // a // b
+    packet metadata {  @leftPad ( '0') repeat i32 options1 ,u64 uint8x , }
+")).
+Eval vm_compute in ("<<<M1977>>>" ++ check (runes_of_ascii "packet	packetx { // trailing space 
+x_y_z
+{
+string
+charz ,
+string x// @lengthOf(
+`two words`
+    ,  u8x { // `tick` ""quote"" 'q'
+charz `100% of %d` // packet A { u8 x, }
+,}// " ++ [27880; 37322]%N ++ runes_of_ascii "
+,} , }
+    // a // b
+    packet metadata {  @leftPad ( ( '0') repeat i32 options1 ,u64 uint8x , }
+")).
+Eval vm_compute in ("<<<M1908>>>" ++ check (runes_of_ascii "packet	packetx { // trailing space 
+x_y_z
+{
+string
+charz ,
+string x// @lengthOf(
+`two words`
+    ,  { u8x // `tick` ""quote"" 'q'
+charz `100% of %d` // packet A { u8 x, }
+,}// " ++ [27880; 37322]%N ++ runes_of_ascii "
+,} , }
+    // a // b
+    packet metadata {  @leftPad ( '0') repeat i32 options1 ,u64 uint8x , }
+")).
+Eval vm_compute in ("<<<M1866>>>" ++ check (runes_of_ascii "packet	packetx { // trailing space 
+x_y_z
+
+string
+charz ,
+string x// @lengthOf(
+`two words`
+    ,  u8x { // `tick` ""quote"" 'q'
+charz `100% of %d` // packet A { u8 x, }
+,}// " ++ [27880; 37322]%N ++ runes_of_ascii "
+,} , }
+    // a // b
+    packet metadata {  @leftPad ( '0') repeat i32 options1 ,u64 uint8x , }
+")).
+Eval vm_compute in ("<<<M1996>>>" ++ check (runes_of_ascii "packet	packetx { // trailing space 
+x_y_z
+{
+string
+charz ,
+string x// @lengthOf(
+`two words`
+    ,  u8x { // `tick` ""quote"" 'q'
+charz `100% of %d` // packet A { u8 x, }
+,}// " ++ [27880; 37322]%N ++ runes_of_ascii "
+,} , }
+    // a // b
+    packet metadata {  @leftPad ( '0') repeat  options1 ,u64 uint8x , }
+")).
+Eval vm_compute in ("<<<M3720>>>" ++ check (runes_of_ascii "options {
+    u128 = u32;
+    Z9_ = ""`tick`""
+    trueish = ""`tick`"";
+    // @lengthOf(
+    tag = '0'
+}
+
+options {
+    metadata = ""a	b"";
+    packetx = '\x00'// " ++ [128512]%N ++ runes_of_ascii " emoji
+}
+
+options {
+    charz = 65535
+}
+
+options {
+    msg_type = zchar[10];
+    asx = false
+    tag = char[];
+}")).
+Eval vm_compute in ("<<<M2110>>>" ++ check (runes_of_ascii "packet// packet A { u8 x, }
+repeatCount	{// packet A { u8 x, }
+@leftPad ( '\x00'
+) repeat u8x MetaDataX `crlf
+line`,
+    repeat repeat
+    char[] MetaDataX
+    ,
+u64	uint8x@calculatedFrom(""a\""b""
+// c
+// packet A { u8 x, }
+) `tab	here`
+,//
+}MetaData pack
+    {
+    }
+")).
+Eval vm_compute in ("<<<M388>>>" ++ check (runes_of_ascii "root packet tag	{ repeat zchar[
+    7 ] tag , @rightPad ( // a // b
+'\x00' )
+    @tag( 7)
+// a // b
+//	t
+@tag(0123456789 )
+    match tag as
+i64_ {4294967296 :	packetx 0123456789
+:
+//x
+// " ++ [27880; 37322]%N ++ runes_of_ascii "
+u 65535 :
+metadata
+[ ""a\\"" , """ ++ [128512]%N ++ runes_of_ascii """
+]:	stringy}
+,	}
+// trailing space 
+")).
+Eval vm_compute in ("<<<M2194>>>" ++ check (runes_of_ascii "packet// packet A { u8 x, }
+repeatCount	{// packet A { u8 x, }
+@leftPad ( '\x00'
+) repeat u8x MetaDataX `crlf
+line`,
+    repeat
+    char[] MetaDat<aX
+    ,
+u64	uint8x@calculatedFrom(""a\""b""
+// c
+// packet A { u8 x, }
+) `tab	here`
+,//
+}MetaData pack
+    {
+    }
+")).
+Eval vm_compute in ("<<<M2107>>>" ++ check (runes_of_ascii "packet// packet A { u8 x, }
+repeatCount	{// packet A { u8 x, }
+@leftPad ( '\x00'
+) repeat u8x MetaDataX `crlf
+line`[
+    repeat
+    char[] MetaDataX
+    ,
+u64	uint8x@calculatedFrom(""a\""b""
+// c
+// packet A { u8 x, }
+) `tab	here`
+,//
+}MetaData pack
+    {
+    }
+")).
+Eval vm_compute in ("<<<M4304>>>" ++ check (runes_of_ascii "
+packet  Foo
+{
+@leftPad  (
+    '0'
+)
+
+    string_ leftPad 
+, u { string
+
+Foo  @calculatedFrom(""\n""
+)	,	} 
+,
+}  packet 
+// trailing space 
+
+msg_type 
+    // c
+	  //	t
+  	{
+
+u
+,
+	i16
+
+body
+
+    @calculatedFrom(
+	""{,}""// " ++ [128512]%N ++ runes_of_ascii " emoji
+    	)
+	`tab	here` ,
+} ")).
+Eval vm_compute in ("<<<M2084>>>" ++ check (runes_of_ascii "packet// packet A { u8 x, }
+repeatCount	{// packet A { u8 x, }
+@leftPad ( '\x00'
+)  u8x MetaDataX `crlf
+line`,
+    repeat
+    char[] MetaDataX
+    ,
+u64	uint8x@calculatedFrom(""a\""b""
+// c
+// packet A { u8 x, }
+) `tab	here`
+,//
+}MetaData pack
+    {
+    }
+")).
+Eval vm_compute in ("<<<M1456>>>" ++ check (runes_of_ascii "packet calculatedFrom
+{ @calculatedFrom( ""a\\"" ) zchar[ 4294967296 int16
+calculatedFrom@lengthOf( pack )	`100% of %d` ,char[]body@calculatedFrom( ""// no comment"" )  ,
+@tag( 007) //x
+int8
+leftPad`it's` , repeat pack
+    { repeat char[ 3] body
+,},
+}")).
+Eval vm_compute in ("<<<M1584>>>" ++ check (runes_of_ascii "packet calculatedFrom
+{ @calculatedFrom( ""a\\"" ) zchar[ 4294967296 ]
+calculatedFrom@lengthOf( pack )	`100% of %d` ,char[]body@calculatedFrom( ""// no comment"" )  ,
+@tag( 007) //x
+int8
+leftPad`it's` , repeat pack
+    { repeat char[ 3] ] body
+,},
+}")).
+Eval vm_compute in ("<<<M2099>>>" ++ check (runes_of_ascii "packet// packet A { u8 x, }
+repeatCount	{// packet A { u8 x, }
+@leftPad ( '\x00'
+) repeat u8x MetaDataX ,
+    repeat
+    char[] MetaDataX
+    ,
+u64	uint8x@calculatedFrom(""a\""b""
+// c
+// packet A { u8 x, }
+) `tab	here`
+,//
+}MetaData pack
+    {
+    }
+")).
+Eval vm_compute in ("<<<M1540>>>" ++ check (runes_of_ascii "packet calculatedFrom
+{ @calculatedFrom( ""a\\"" ) zchar[ 4294967296 ]
+calculatedFrom@lengthOf( pack )	`100% of %d` ,char[]body@calculatedFrom( ""// no comment"" )  ,
+@tag( 007) //x
+int8
+`it's`leftPad , repeat pack
+    { repeat char[ 3] body
+,},
+}")).
+Eval vm_compute in ("<<<M1598>>>" ++ check (runes_of_ascii "packet calculatedFrom
+{ @calculatedFrom( ""a\\"" ) zchar[ 4294967296 ]
+calculatedFrom@lengthOf( pack )	`100% of %d` ,char[]body@calculatedFrom( ""// no comment"" )  ,
+@tag( 007) //x
+int8
+leftPad`it's` , repeat pack
+    { repeat char[ 3] body
+,,
+}")).
+Eval vm_compute in ("<<<M1491>>>" ++ check (runes_of_ascii "packet calculatedFrom
+{ @calculatedFrom( ""a\\"" ) zchar[ 4294967296 ]
+calculatedFrom@lengthOf( pack )	`100% of %d` ,,body@calculatedFrom( ""// no comment"" )  ,
+@tag( 007) //x
+int8
+leftPad`it's` , repeat pack
+    { repeat char[ 3] body
+,},
+}")).
+Eval vm_compute in ("<<<M1380>>>" ++ check (runes_of_ascii "root packet leftPad{ }// `tick` ""quote"" 'q'
+packet
+o { match u128
+    as
+    // a // b
+    leftPad //
+{ 007:i8i8  , [	00
+    , // @lengthOf(
+""{,}"" , ""// no comment""
+// " ++ [27880; 37322]%N ++ runes_of_ascii "
+// trailing space 
+,
+1 ]
+    : falsey , } //
+,
+} packet T
+{ }")).
+Eval vm_compute in ("<<<M622>>>" ++ check (runes_of_ascii "
+packet  Foo{@leftPad( '0')string_ leftPad , u{	string Foo
+    @calculatedFrom(
+    ""\n"" )
+    , } , } packet
+    // trailing space 
+    msg_type
+// c
+//	t
+{
+u
+    ,i16
+body
+@calculatedFrom(""{,}"" // " ++ [128512]%N ++ runes_of_ascii " emoji
+)  `tab	here` ,}
+")).
+Eval vm_compute in ("<<<M4438>>>" ++ check (runes_of_ascii "
+
+  packet falsey
+    {
+u8x Logon // trailing space 
+	,	zchar[  007
+] stringy
+    @lengthOf(	u
+) `u8 x,` ,	@tag(
+1	) int16 T @calculatedFrom(
+""{,}"" )`tab	here`	,	Pad
+
+msg_type
+    // " ++ [128512]%N ++ runes_of_ascii " emoji
+  // " ++ [128512]%N ++ runes_of_ascii " emoji
+	,
+} ")).
+Eval vm_compute in ("<<<M127>>>" ++ check (runes_of_ascii "MetaData T { char[]rootA `a\` , string crc
+`tab	here`  ,float64 x // packet A { u8 x, }
+`" ++ [233]%N ++ runes_of_ascii "`// " ++ [128512]%N ++ runes_of_ascii " emoji
+, // trailing space 
+int16 charz
+// `tick` ""quote"" 'q'
+// " ++ [27880; 37322]%N ++ runes_of_ascii "
+``, string
+uint8x `
+` , rootA matchKey,
+}
+")).
+Eval vm_compute in ("<<<M4441>>>" ++ check (runes_of_ascii "packet Packet {
+    u64 MetaDataX,
+    @lengthOf(u128)
+    @calculatedFrom(""" ++ [28040; 24687]%N ++ runes_of_ascii """)
+    @tag(1)
+    // c
+    repeat Z9_ u128,
+}
+
+root packet chars {
+    @tag(255)
+    char[007] chars @lengthOf(i64_),
+}")).
+Eval vm_compute in ("<<<M1105>>>" ++ check (runes_of_ascii "packet
+rootA {
+i16
+a1  @calculatedFrom( ""a\""b""	) `it's` , @calculatedFrom(	""packet"" ) zchar[ 7 ] repeatCount // c
+`
+`, @lengthOf( Foo ) int64 A// 50% %s
+@lengthOf(charz	)
+`two words`  , }
+")).
+Eval vm_compute in ("<<<M136>>>" ++ check (runes_of_ascii "
+root packet falsey { } packet roots
+    {
+    @calculatedFrom( """ ++ [128512]%N ++ runes_of_ascii """ )
+// a // b
+// @lengthOf(
+@calculatedFrom(
+    ""\" ++ [233]%N ++ runes_of_ascii """) @lengthOf( MetaDataX )	metadata ,	}
+    MetaData string_ {	}
+")).
+Eval vm_compute in ("<<<M1935>>>" ++ check (runes_of_ascii "packet	packetx { // trailing space 
+x_y_z
+{
+string
+charz ,
+string x// @lengthOf(
+`two words`
+    ,  u8x { // `tick` ""quote"" 'q'
+charz `100% of %d` // packet A { u8 x, }
+,")).
+Eval vm_compute in ("<<<M304>>>" ++ check (runes_of_ascii "MetaData o {
+    }MetaData x{ body
+    //	t
+    Pad
+    , char[] Logon , } options
+{ msg_type //x
+=	string // c
+; o= ""it's""
+;  packetx= ""it's"" f32a
+=
+    ""packet"" ;}
+")).
+Eval vm_compute in ("<<<M743>>>" ++ check (runes_of_ascii "packet
+// trailing space 
+// @lengthOf(
+trueish { @tag( 3
+) match
+    T	as i64_ {
+    ""packet"" :
+    // trailing space 
+    MetaDataX, }
+    // @lengthOf(
+    , }
+")).
+Eval vm_compute in ("<<<M1517>>>" ++ check (runes_of_ascii "packet calculatedFrom
+{ @calculatedFrom( ""a\\"" ) zchar[ 4294967296 ]
+calculatedFrom@lengthOf( pack )	`100% of %d` ,char[]body@calculatedFrom( ""// no comment"" )")).
+Eval vm_compute in ("<<<M2411>>>" ++ check (runes_of_ascii "
+packet MetaDataX
+{
+    @leftPad
+( // a // b
+'0'
+) ) i8 u @lengthOf(
+MetaDataX
+    ) `say ""hi""` ,	} MetaData BodyLength {
+    asx
+x_y_z `" ++ [233]%N ++ runes_of_ascii "`
+, uint64 u128 , }
+")).
+Eval vm_compute in ("<<<M1703>>>" ++ check (runes_of_ascii "options { } packet Packet{char[] i64_ ,
+@tag(
+    255) match
+crc as as i8i8{""{,}"" : trueish """" : Pad , ""a\\"" :
+Foo ,
+    1 :packetx
+, """ ++ [128512]%N ++ runes_of_ascii """ : trueish , } , }")).
+Eval vm_compute in ("<<<M1713>>>" ++ check (runes_of_ascii "options { } packet Packet{char[] i64_ ,
+@tag(
+    255) match
+crc as i8i8{ {""{,}"" : trueish """" : Pad , ""a\\"" :
+Foo ,
+    1 :packetx
+, """ ++ [128512]%N ++ runes_of_ascii """ : trueish , } , }")).
+Eval vm_compute in ("<<<M4374>>>" ++ check (runes_of_ascii "packet T {
+    @tag(00)
+    f32 metadata @lengthOf(crc) `// not a comment`,
+    repeat uint16 As,
+    @tag(65535)
+    int8 metadata @lengthOf(BodyLength),
+}")).
+Eval vm_compute in ("<<<M1664>>>" ++ check (runes_of_ascii "options { } packet Packet{i64_ char[] ,
+@tag(
+    255) match
+crc as i8i8{""{,}"" : trueish """" : Pad , ""a\\"" :
+Foo ,
+    1 :packetx
+, """ ++ [128512]%N ++ runes_of_ascii """ : trueish , } , }")).
+Eval vm_compute in ("<<<M1814>>>" ++ check (runes_of_ascii "options { } packet Packet{char[] i64_ ,
+@tag(
+    255) match
+crc as i8i8{""{,}"" : trueish """" : Pad , ""a\\"" :
+Foo ,
+    1 :packetx
+, """ ++ [128512]%N ++ runes_of_ascii """ : trueish , , } }")).
+Eval vm_compute in ("<<<M1845>>>" ++ check (runes_of_ascii "options { } packet Packet{char[] i64_ ,
+@tag(
+    255) match
+x" ++ [178]%N ++ runes_of_ascii " as i8i8{""{,}"" : trueish """" : Pad , ""a\\"" :
+Foo ,
+    1 :packetx
+, """ ++ [128512]%N ++ runes_of_ascii """ : trueish , } , }")).
+Eval vm_compute in ("<<<M1682>>>" ++ check (runes_of_ascii "options { } packet Packet{char[] i64_ ,
+@tag(
+    ) match
+crc as i8i8{""{,}"" : trueish """" : Pad , ""a\\"" :
+Foo ,
+    1 :packetx
+, """ ++ [128512]%N ++ runes_of_ascii """ : trueish , } , }")).
+Eval vm_compute in ("<<<M3979>>>" ++ check (runes_of_ascii "MetaData As
+    {  roots	tag,
+u32
+a1``,
+crc  packetx 
+,
+    BodyLength
+A
+
+    `crlf
+line`
+
+,}
+
+    options {a1
+//	t
+  // @lengthOf(
+  =true } ")).
+Eval vm_compute in ("<<<M4492>>>" ++ check (runes_of_ascii "
+
+  MetaData metadata
+
+{  }
+	MetaData
+    rootA
+    { i8 i64_, roots 	 // c
+
+	options1
+
+`a\`,lengthOf Header ,	Z9_	Foo
+,
+int16 
+BodyLength	, }
+")).
+Eval vm_compute in ("<<<M281>>>" ++ check (runes_of_ascii "// trailing space 
+MetaData stringy {}root packet
+    // a // b
+    rootA
+    { match
+    lengthOf as Pad { ""it's""
+: lengthOf ,
+    }
+,  }
+")).
+Eval vm_compute in ("<<<M4475>>>" ++ check (runes_of_ascii "//	t
+packet rootA {
+    @calculatedFrom(""`tick`"")
+    f32a {
+        char[] calculatedFrom,
+    },
+    @tag(4294967296)
+    float32 o,
+}")).
+Eval vm_compute in ("<<<M950>>>" ++ check (runes_of_ascii "packet metadata { int64
+    T // " ++ [27880; 37322]%N ++ runes_of_ascii "
+,
+@tag( 42 // packet A { u8 x, }
+)
+repeat u64
+    BodyLength`say ""hi""` , } packet falsey {
+}")).
+Eval vm_compute in ("<<<M761>>>" ++ check (runes_of_ascii "
+root packet T {
+    string zchar , zchar[ 3 ]stringy , // 50% %s
+}
+packet rootA {u { repeatCount@lengthOf( o ) `" ++ [28040; 24687; 31867; 22411]%N ++ runes_of_ascii "` , } , }")).
+Eval vm_compute in ("<<<M3274>>>" ++ check (runes_of_ascii "MetaData metadata { } MetaData rootA { // c
+i8 i64_ , roots options1 `a\` , lengthOf Header , Z9_ Foo , int16 BodyLength , }")).
+Eval vm_compute in ("<<<M3306>>>" ++ check (runes_of_ascii "MetaData metadata { } MetaData rootA { i8 i64_ , roots options1 `a\` , lengthOf Header , Z9_ Foo , int16 BodyLength , // c
+}")).
+Eval vm_compute in ("<<<M3095>>>" ++ check (runes_of_ascii "packet A {
     match k as n {
         ""x\
 y"" : B,
@@ -1096,150 +2681,245 @@ y"", 1] : C,
 y""] : D,
     },
 }")).
-Eval vm_compute in ("<<<M250>>>" ++ check (runes_of_ascii "
-MetaData	Logon {	zchar[ 10 ]float `" ++ [233]%N ++ runes_of_ascii "` , BodyLength Z9_ , float32 o `a\` ,uint64 roots `two words` // " ++ [27880; 37322]%N ++ runes_of_ascii "
+Eval vm_compute in ("<<<M1112>>>" ++ check (runes_of_ascii "options
+// `tick` ""quote"" 'q'
+// a // b
+{crc =// trailing space 
+""// no comment"" ; }MetaData
+o
+{i32 zchar `` ,	}
+")).
+Eval vm_compute in ("<<<M1103>>>" ++ check (runes_of_ascii "MetaData Packet{
+    } // trailing space 
+root packet x{
+@rightPad	( ' ' ) float32 crc `// not a comment` ,}
+")).
+Eval vm_compute in ("<<<M3345>>>" ++ check (runes_of_ascii "MetaData float { uint8 BodyLength , } MetaData charz { float32 trueish `a\` ,
+// c
+i16 metadata `say ""hi""` , }")).
+Eval vm_compute in ("<<<M1374>>>" ++ check (runes_of_ascii "  MetaData
+    x_y_z
+{ tag	float // packet A { u8 x, }
+`doc` ,i16 _x
+    `crlf
+line`
+,zchar[ 007 ]f32a , }")).
+Eval vm_compute in ("<<<M528>>>" ++ check (runes_of_ascii "packet roots { zchar[
+00 ] i8i8 , uint8x stringy ,	@lengthOf(	trueish
+)options1@lengthOf(
+string_)
+, }
+")).
+Eval vm_compute in ("<<<M1756>>>" ++ check (runes_of_ascii "options { } packet Packet{char[] i64_ ,
+@tag(
+    255) match
+crc as i8i8{""{,}"" : trueish """" : Pad ,")).
+Eval vm_compute in ("<<<M4382>>>" ++ check (runes_of_ascii "  options
+	{// " ++ [27880; 37322]%N ++ runes_of_ascii "
+
+zchar
+= 
+""a\""b""
+
+    ;
+metadata
+
+    =  65535
+} options{ i64_
+	= 0//x
+	;	}")).
+Eval vm_compute in ("<<<M1233>>>" ++ check (runes_of_ascii "options
+{
+    A =""a\\""; }
+    MetaData u
+{
+char[]  Z9_ , asx	f32a // packet A { u8 x, }
+, }
+")).
+Eval vm_compute in ("<<<M2250>>>" ++ check (runes_of_ascii "MetaData _x {string x `// not a comment` , string
+i64_ i64_ // trailing space 
+`a\` ,
+    }
+")).
+Eval vm_compute in ("<<<M1315>>>" ++ check (runes_of_ascii "// packet A { u8 x, }
+MetaData T
+    { lengthOf u8x  , string i8i8 `doc`//x
+,u32 zchar , }")).
+Eval vm_compute in ("<<<M2281>>>" ++ check (runes_of_ascii "MetaData _x {stri""ng x `// not a comment` , string
+i64_ // trailing space 
+`a\` ,
+    }
+")).
+Eval vm_compute in ("<<<M2957>>>" ++ check (runes_of_ascii "packet A {
+  match k as n {
+    [""a"", ""bb"", 007, ""d"", ""e"", 66, ""g""] : B
+    2 : C
+  },
+}")).
+Eval vm_compute in ("<<<M4150>>>" ++ check (runes_of_ascii "options {
+    Foo = u64
+    A = """";
+    packetx = ""`tick`""
+    float = ' '
+}/// triple")).
+Eval vm_compute in ("<<<M484>>>" ++ check (runes_of_ascii "// c
+MetaData float { char[ 7 ] Z9_
+`" ++ [28040; 24687; 31867; 22411]%N ++ runes_of_ascii "`, } packet Header// trailing space 
+{ }
+
+")).
+Eval vm_compute in ("<<<M2937>>>" ++ check (runes_of_ascii "packet A {
+  match k as n {
+    [1, ""bb"", 007, ""d"", 5, ""f""] : B,
+    2 : C
+  },
+}")).
+Eval vm_compute in ("<<<M1026>>>" ++ check (runes_of_ascii "root packet
+// 50% %s
+//	t
+calculatedFrom{
+len @calculatedFrom( ""CRC32"" )
+, }
+")).
+Eval vm_compute in ("<<<M2927>>>" ++ check (runes_of_ascii "packet A {
+  match k as n {
+    [""a"", 22, ""c c"", 4, ""e""] : B
+    2 : C
+  },
+}")).
+Eval vm_compute in ("<<<M3378>>>" ++ check (runes_of_ascii "MetaData _x { f64 charz `tab	here` , } // c
+options { BodyLength = """ ++ [233]%N ++ runes_of_ascii "t" ++ [233]%N ++ runes_of_ascii """ ; }")).
+Eval vm_compute in ("<<<M2843>>>" ++ check (runes_of_ascii "uint64 [ f32 Header = i32 char packet u32 false repeat string @lengthOf( (")).
+Eval vm_compute in ("<<<M2867>>>" ++ check (runes_of_ascii "int16 true packet MetaData float32 string MetaData match char[ char f64")).
+Eval vm_compute in ("<<<M946>>>" ++ check (runes_of_ascii "
+root
+packet leftPad/// triple
+{
+} options { msg_type
+    =""" ++ [233]%N ++ runes_of_ascii "t" ++ [233]%N ++ runes_of_ascii """ }
+
+")).
+Eval vm_compute in ("<<<M3424>>>" ++ check (runes_of_ascii "packet o { @tag( 4294967296 ) options1 @lengthOf( u8x ) `" ++ [233]%N ++ runes_of_ascii "` , // c
+}")).
+Eval vm_compute in ("<<<M2894>>>" ++ check (runes_of_ascii "packet A {
+  match k as n {
+    [1, 22, 007] : B,
+    2 : C
+  },
+}")).
+Eval vm_compute in ("<<<M538>>>" ++ check (runes_of_ascii "packet zchar { } // a // b
+packet f32a
+    { repeat u8x , } 	 ")).
+Eval vm_compute in ("<<<M4247>>>" ++ check (runes_of_ascii "packet A
+{
+match
+	k
+as
+n{
+1
+:
+B // a
+
+// b
+2 : C	}
+
+,
+	}
+
+")).
+Eval vm_compute in ("<<<M1366>>>" ++ check (runes_of_ascii "packet a1{@calculatedFrom( ""\n""
+    // " ++ [27880; 37322]%N ++ runes_of_ascii "
+    ) o `a\` , }")).
+Eval vm_compute in ("<<<M3871>>>" ++ check (runes_of_ascii "
+packet
+
+BodyLength
+	{
+
+    char[] 
+MetaDataX
 ,  }
 ")).
-Eval vm_compute in ("<<<M880>>>" ++ check (runes_of_ascii "packet A {
-  match k as n {
-    [""a"", ""bb"", ""c c"", ""d"", ""e"", ""f"", ""g"", ""h"", ""i"", ""j""] : B
-    2 : C
-  },
+Eval vm_compute in ("<<<M1312>>>" ++ check (runes_of_ascii "MetaData  Z9_ {
+}
+    root	packet
+f32a { // " ++ [27880; 37322]%N ++ runes_of_ascii "
+} 	 ")).
+Eval vm_compute in ("<<<M3070>>>" ++ check (runes_of_ascii "MetaData M {
+    u8 x `tab
+	x`,
+    T t `tab
+	x`,
 }")).
-Eval vm_compute in ("<<<M1258>>>" ++ check (runes_of_ascii "packet calculatedFrom {
-// c
-@tag( 4294967296 ) u msg_type , char[ 3 ] crc @lengthOf( len ) `u8 x,` , }")).
-Eval vm_compute in ("<<<M1521>>>" ++ check (runes_of_ascii "
-root packet  x_y_z
-
-{
-	    // a // b
-	// packet A { u8 x, }
-    	repeat
-falsey 	 // " ++ [27880; 37322]%N ++ runes_of_ascii "
-`" ++ [233]%N ++ runes_of_ascii "`
-	,
-    } ")).
-Eval vm_compute in ("<<<M1685>>>" ++ check (runes_of_ascii "packet	A {  u32 
-crc@calculatedFrom(	""x\
-y""  ) ,
-	@calculatedFrom(
-
-    ""x\
-y"")
-u8
-
-y  ,
+Eval vm_compute in ("<<<M2339>>>" ++ check (runes_of_ascii "
+MetaData Pa" ++ [0]%N ++ runes_of_ascii "d{
+u32 rootA `line1
+line2` ,
     }
 ")).
-Eval vm_compute in ("<<<M1136>>>" ++ check (runes_of_ascii "packet Logon { @tag( // c
-42 ) @rightPad ( ' ' ) @leftPad ( ) repeat trueish { string T , } , }")).
-Eval vm_compute in ("<<<M1168>>>" ++ check (runes_of_ascii "packet Logon { @tag( 42 ) @rightPad ( ' ' ) @leftPad ( ) repeat trueish { string T , } // c
+Eval vm_compute in ("<<<M82>>>" ++ check (runes_of_ascii "packet trueish { } options
+{_x = true
+;
+    }
+
+")).
+Eval vm_compute in ("<<<M2303>>>" ++ check (runes_of_ascii "
+MetaData Pad{
+ rootA `line1
+line2` ,
+    }
+")).
+Eval vm_compute in ("<<<M2582>>>" ++ check (runes_of_ascii "packet A { repeat x @calculatedFrom(""c""), }")).
+Eval vm_compute in ("<<<M3072>>>" ++ check (runes_of_ascii "packet A {
+    u8 x `100% of %s %d %v`,
+}")).
+Eval vm_compute in ("<<<M3246>>>" ++ check (runes_of_ascii "MetaData zchar { zchar[ 3 ] Pad
+// c
 , }")).
-Eval vm_compute in ("<<<M1502>>>" ++ check (runes_of_ascii "packet o {
-    @tag(42)
-    repeat x {
-        char[0123456789] i64_,
-    },
-}
-
-options {
-}")).
-Eval vm_compute in ("<<<M827>>>" ++ check (runes_of_ascii "packet A {
-  match k as n {
-    [""a"", ""bb"", ""c c"", ""d"", ""e"", ""f""] : B,
-    2 : C
-  },
-}")).
-Eval vm_compute in ("<<<M843>>>" ++ check (runes_of_ascii "packet A {
-  match k as n {
-    [1, ""bb"", 007, ""d"", 5, ""f"", 7] : B
-    2 : C
-  },
-}")).
-Eval vm_compute in ("<<<M1219>>>" ++ check (runes_of_ascii "packet o { @tag( 42 )
-// c
-repeat x { char[ 0123456789 ] i64_ , } , } options { }")).
-Eval vm_compute in ("<<<M1875>>>" ++ check (runes_of_ascii "MetaData matchKey {
-    u64 chars,
-    char[] lengthOf `?// not a comment`,//	t
-}")).
-Eval vm_compute in ("<<<M1738>>>" ++ check (runes_of_ascii "packet A {
-    B b `a
-    b`,
-    B `a
-    b`,
-    repeat B bs `a
-    b`,
-}")).
-Eval vm_compute in ("<<<M1802>>>" ++ check (runes_of_ascii "MetaData As
-{
-
-}
-MetaData asx
-	{
-char[	007]
-    Logon `two words` , }
-")).
-Eval vm_compute in ("<<<M1992>>>" ++ check (runes_of_ascii "// top
-root packet P {
-    // c3a
-    // c3b
-    string s,// c6
-}
-// c7")).
-Eval vm_compute in ("<<<M1518>>>" ++ check (runes_of_ascii "packet A {
-    B b `
-    `,
-    B `
-    `,
-    repeat B bs `
-    `,
-}")).
-Eval vm_compute in ("<<<M837>>>" ++ check (runes_of_ascii "packet A { Inner { match k as n { [1,22,007,4,5,66] : B, }, }, }")).
-Eval vm_compute in ("<<<M811>>>" ++ check (runes_of_ascii "packet A { Inner { match k as n { [1,22,007,4] : B, }, }, }")).
-Eval vm_compute in ("<<<M1979>>>" ++ check (runes_of_ascii "
-packet o{
-    char[
-    0123456789
-]asx
-	`doc`
-	, } ")).
-Eval vm_compute in ("<<<M340>>>" ++ check (runes_of_ascii "packet int
-    { }
-    packet u128 {
-    }
-")).
-Eval vm_compute in ("<<<M1111>>>" ++ check (runes_of_ascii "MetaData zchar { zchar[
-// c
-3 ] Pad , }")).
-Eval vm_compute in ("<<<M963>>>" ++ check (runes_of_ascii "root packet A {
+Eval vm_compute in ("<<<M236>>>" ++ check (runes_of_ascii "MetaData packetx { }
+    options {  }")).
+Eval vm_compute in ("<<<M3071>>>" ++ check (runes_of_ascii "root packet A {
     u8 x `tab
 	x`,
 }")).
-Eval vm_compute in ("<<<M1698>>>" ++ check (runes_of_ascii "options {
-    // c
-    u8x = 3
+Eval vm_compute in ("<<<M2601>>>" ++ check (runes_of_ascii "packet A { char[3] @lengthOf(y), }")).
+Eval vm_compute in ("<<<M3029>>>" ++ check (runes_of_ascii "root packet A {
+    u8 x `a
+b`,
 }")).
-Eval vm_compute in ("<<<M1022>>>" ++ check (runes_of_ascii "packet A {
- u8 x `d" ++ [8239]%N ++ runes_of_ascii "`, // c" ++ [8239]%N ++ runes_of_ascii "
+Eval vm_compute in ("<<<M3651>>>" ++ check (runes_of_ascii "packet A {
+    // a
+    u8 x,
 }")).
-Eval vm_compute in ("<<<M1686>>>" ++ check (runes_of_ascii "  packet 
-A {
+Eval vm_compute in ("<<<M2749>>>" ++ check (runes_of_ascii "KnY/0Q<<XXBbgWb6'QTdP^:-<NA[@")).
+Eval vm_compute in ("<<<M2662>>>" ++ check (runes_of_ascii "packet A { } x packet B { }")).
+Eval vm_compute in ("<<<M4453>>>" ++ check (runes_of_ascii "  // c" ++ [8239]%N ++ runes_of_ascii "
+packet
+    A {  } ")).
+Eval vm_compute in ("<<<M2683>>>" ++ check (runes_of_ascii "options { a = char[x]; }")).
+Eval vm_compute in ("<<<M3950>>>" ++ check (runes_of_ascii "
+// c" ++ [12288]%N ++ runes_of_ascii "
+	packet
+A { } ")).
+Eval vm_compute in ("<<<M3965>>>" ++ check (runes_of_ascii "MetaData string_ {
+}")).
+Eval vm_compute in ("<<<M20>>>" ++ check (runes_of_ascii "MetaData i8i8{	}
 
-} 
-// c" ++ [8239]%N ++ runes_of_ascii "
- 
 ")).
-Eval vm_compute in ("<<<M1299>>>" ++ check (runes_of_ascii "packet lengthOf
-// c
-{ }")).
-Eval vm_compute in ("<<<M757>>>" ++ check (runes_of_ascii "0p7n2r0zu^V9,x""![jU")).
-Eval vm_compute in ("<<<M1026>>>" ++ check (runes_of_ascii "// c" ++ [8287]%N ++ runes_of_ascii "
-packet A {
-}")).
-Eval vm_compute in ("<<<M1028>>>" ++ check (runes_of_ascii "packet A {
-}// c" ++ [11]%N)).
-Eval vm_compute in ("<<<M758>>>" ++ check (runes_of_ascii "char char[")).
-Eval vm_compute in ("<<<M725>>>" ++ check (runes_of_ascii "
-	 ")).
+Eval vm_compute in ("<<<M3159>>>" ++ check (runes_of_ascii "packet A {
+}
+// c" ++ [11]%N)).
+Eval vm_compute in ("<<<M2677>>>" ++ check (runes_of_ascii "options { a = ; }")).
+Eval vm_compute in ("<<<M2673>>>" ++ check (runes_of_ascii "MetaData M M { }")).
+Eval vm_compute in ("<<<M2589>>>" ++ check (runes_of_ascii "packet A { x }")).
+Eval vm_compute in ("<<<M2851>>>" ++ check (runes_of_ascii "@lengthOf( ]")).
+Eval vm_compute in ("<<<M2297>>>" ++ check (runes_of_ascii "
+MetaData")).
+Eval vm_compute in ("<<<M2456>>>" ++ check (runes_of_ascii "zchar[]")).
+Eval vm_compute in ("<<<M2577>>>" ++ check (runes_of_ascii "// " ++ [233]%N ++ runes_of_ascii "
+" ++ [21517]%N)).
+Eval vm_compute in ("<<<M3118>>>" ++ check (runes_of_ascii "// c" ++ [133]%N)).
+Eval vm_compute in ("<<<M2558>>>" ++ check (runes_of_ascii "A1b2")).
+Eval vm_compute in ("<<<M2551>>>" ++ check (runes_of_ascii "a-b")).
+Eval vm_compute in ("<<<M2574>>>" ++ check (runes_of_ascii "a" ++ [233]%N)).
+Eval vm_compute in ("<<<M64>>>" ++ check (@nil rune)).
